@@ -1,19 +1,12 @@
 """C18 - TAP streams are interpreted per the specification (DESIGN section 2 C18, data sheets A.4 / A.17).
 
-`TAPParser.parse_line` is a step function  (fields, line) -> (events, fields').  Every rule below decides a
-projection of the statement "for every world of a finite abstraction of (fields, line) the step computed by
-the code equals the step of the reference parser written from the TAP 12/13 rules of A.17":
-
-  R1  state: next state, YAML bookkeeping, the `assert state == _MAIN`, who writes `state`
-  R2  events: the event list per line form / at end of stream, plan and flag fields, `parse_test` table,
-      line-form facts of the regex constants, `parse`/`parse_async` feed every line then exactly one EOF
-  R3  counters: num_tests / last_test / highest_test / lineno and the beyond-plan comparison
-  R4  no exception leaves parse_line / parse_test / parse / parse_async (partial-operation inventory)
-  R5  TestRunTAP.parse / complete fold the events into "bad iff bad subtest, Error, Bailout or exit != 0"
-
-The worlds are enumerated lazily by sa.rules.c18_absint (only combinations the code or the reference consult),
-the code side is the function's own AST folded over abstract values, the reference side is `_ref_line` /
-`_ref_test` below.  Nothing of /repo is imported or executed.
+Everything is decided from structure (FAMILY POLICY): `TAPParser.parse_line` is cut into its own sections - the
+state/blank prefix, the body under each `m = <regex>.match(line); if m:`, the unknown-line tail, the end-of-stream
+branch - and each section is an ordered decision table (sa.rules.c18_rows on top of sa.paths / sa.tables: atoms
+versioned by the reaching definition of `m`, `line` and of the fields written on the row).  The rules compare,
+on every world of a table's atoms, the row that fires with the reference row of DESIGN A.17 *symbolically*:
+which event constructors are yielded with which operands (capture-group roles read from the regex structure),
+which field gets which normalised expression.  No function body is interpreted on values.
 """
 from __future__ import annotations
 
@@ -24,89 +17,242 @@ from ..core import Module, Undecided, AnchorMissing, attr_chain, call_name, norm
 from ..report import Rule, RuleCtx
 from ..paths import enumerate_paths
 from ..cfg import CFG
-from .. import rx
+from ..consteval import Folder, Regex
+from ..tables import Atom, canon
+from .. import rx, tables
 from . import c18_rx
-from .c18_absint import (Static, World, Interp, Hooks, Result, Raises, NeedChoice, Unknown, Line, Match, Obj, LazyObj, LazyInt,
-                         EnumVal, CallEvent, RxVal, _Huge, is_huge, NODEFAULT, INT_MAX_STR_DIGITS, explore, params_of)
+from .c18_rows import Row, Eff, build, compare, param_names, _Sub
 
 MTEST = 'mesonbuild/mtest.py'
 PARSER = 'TAPParser'
 RUNNER = 'TestRunTAP'
+INT_MAX_STR_DIGITS = 4300
 
 EXPLANATION = (
-    'Decides structural clauses of C18 by comparing, on every world of a finite abstraction of (parser fields, line form, '
-    'capture groups), the step computed by TAPParser.parse_line / parse_test (their own AST folded over abstract values) with a '
-    'reference TAP 12/13 step: R1 state transitions (YAML only after a test line and only for version >= 13, every test line '
-    'enters AFTER_TEST, `assert state == _MAIN` holds from every state, state has no other writer); R2 the event list of every '
-    'line form and of end-of-stream, the seven rows of parse_test, the six line forms denoted by the regex constants (roles of '
-    'their groups, pairwise disjoint), parse/parse_async pass every line and then exactly one EOF; R3 num_tests/last_test/'
-    'highest_test/lineno updates and the beyond-plan comparison; R4 no exception escapes (int() of unbounded digit runs, '
-    'None dereference, group index, assert, constructor arity, explicit raise); R5 TestRunTAP.parse/complete report bad iff a bad '
-    'subtest, an Error or Bailout event, or a non-zero exit. Does NOT decide that the regexes tokenise arbitrary text as the TAP '
-    'grammar does beyond the stated samples/roles, nor TestRun._complete / the harness.')
+    'Decides structural clauses of C18 from ordered decision tables of the sections of TAPParser.parse_line (state/blank prefix, '
+    'one table per `m = REGEX.match(line); if m:` body, unknown-line tail, end-of-stream branch), of parse_test and of '
+    'TestRunTAP.parse/complete, with atoms versioned by reaching definitions and outcomes compared symbolically with the A.17 '
+    'reference rows: R1 constant propagation of `state` over its three folded constants on the CFG (the assertion state == _MAIN '
+    'holds, YAML is entered only from AFTER_TEST) plus the prefix table (YAML only for version >= 13 on a YAML-start line, end / '
+    'body / unterminated rows) and "every test-line row ends in AFTER_TEST, nothing else writes it"; R2 event constructors and '
+    'operand roles per row for test / plan / Bail out / version / unknown / end-of-stream and the seven parse_test rows, the six '
+    'line forms denoted by the regex constants (group roles from the regex structure, specification samples, pairwise disjoint), '
+    'parse/parse_async pass every line then exactly one EOF; R3 per-row effect shapes num_tests+1 once, last_test := last_test+1 '
+    'if the number group is None else int(group), highest_test := max(highest_test, new last_test), beyond-plan test is '
+    'plan.num_tests < new last_test, lineno+1 once; R4 int() fed by a capture group whose language is an unbounded digit run must '
+    'be guarded by a ValueError handler (CFG), group indices exist, optional groups / self.plan / Optional parameters are only '
+    'dereferenced under a guard atom, constructor arity, no reachable raise; R5 the is_bad set and the verdict fold as decision '
+    'tables over event-kind atoms with constant propagation of the verdict local. NOT decided: numeric behaviour of the counters '
+    'on concrete streams, that the regexes tokenise arbitrary text as the TAP grammar beyond the stated samples/roles, '
+    'TestRun._complete and the harness.')
 ASSUMPTIONS = [
     f'CPython int(str) raises ValueError beyond {INT_MAX_STR_DIGITS} digits (default int_max_str_digits, Python >= 3.11)',
-    're.match binds group n to the n-th parenthesis of the pattern; groups under the same optional construct are set together',
+    're.match binds group n to the n-th parenthesis of the pattern; a group under an optional construct may be None',
     'lines handed to parse_line are str or None (annotation of parse / parse_async)',
-    'TestRun.res is RUNNING or a harness verdict (TIMEOUT/INTERRUPT) when TestRunTAP.parse starts',
+    'TestRun.res is RUNNING or a harness verdict when TestRunTAP.parse starts; parse_test writes no parser field (checked)',
 ]
-TECHNIQUE = 'finite-domain abstract interpretation of the step function vs a reference step (lazy worlds), regex-structure facts, engine paths/CFG'
-
-INDENT = ' \t '          # representative of a YAML indent (unique token, so `startswith(indent)` is recognisable)
-ERR = ('Error',)
-
-REPS: T.Dict[T.Tuple[str, str], T.List[T.Any]] = {
-    ('test', 'status'): ['ok', 'not ok'], ('test', 'digits'): ['1', '5'], ('test', 'name'): ['name '],
-    ('test', 'directive'): ['SKIP'], ('test', 'text'): ['why'],
-    ('plan', 'digits'): ['0', '4'], ('plan', 'directive'): ['skip', 'SKIP-all', 'todo'], ('plan', 'text'): ['why'],
-    ('bailout', 'text'): ['msg'], ('version', 'digits'): ['12', '13', '14'], ('yaml_start', 'indent'): [INDENT],
-}
-STATE_FIELDS = ('state', 'yaml_lineno', 'yaml_indent', 'version')
-EVENT_FIELDS = ('plan', 'bailed_out', 'found_late_test')
-COUNTER_FIELDS = ('num_tests', 'last_test', 'highest_test', 'lineno')
-
-
-# ----------------------------------------------------------------------------------------------
-# static facts of the parser class
-# ----------------------------------------------------------------------------------------------
-class Facts:
-    def __init__(self, ctx: RuleCtx):
-        self.repo = ctx.repo
-        self.mod = ctx.repo.module(MTEST)
-        self.static = Static(self.repo, self.mod)
-        self.cls = self.mod.cls(PARSER)
-        self.parse_line = self.mod.func(f'{PARSER}.parse_line')
-        self.parse_test = self.mod.func(f'{PARSER}.parse_test')
-        st = {}
-        for name in ('_MAIN', '_AFTER_TEST', '_YAML'):
-            v = self.static.class_attr(PARSER, name)
-            if v is NODEFAULT:
-                raise AnchorMissing(f'{MTEST}: {PARSER}.{name} not found')
-            if not isinstance(v, int):
-                raise Undecided(f'{PARSER}.{name} does not fold to an integer: {v!r}')
-            st[name] = v
-        self.MAIN, self.AFTER, self.YAML = st['_MAIN'], st['_AFTER_TEST'], st['_YAML']
-        self.state_name = {self.MAIN: 'MAIN', self.AFTER: 'AFTER_TEST', self.YAML: 'YAML'}
-        # regex constants: the line form each is meant to denote (anchor by name) and what its structure denotes
-        self.forms: T.Dict[str, T.Tuple[str, c18_rx.Form]] = {}
-        self.regexes: T.Dict[str, RxVal] = {}
-        self.form_problems: T.List[T.Tuple[str, str, str, str]] = []    # (constant, kind, category, text)
-        for n, kind in FORM_OF.items():
-            v = self.static.class_attr(PARSER, n)
-            if v is NODEFAULT:
-                raise AnchorMissing(f'{MTEST}: {PARSER}.{n} not found')
-            if not isinstance(v, RxVal):
-                raise Undecided(f'{PARSER}.{n} does not fold to a compiled pattern: {v!r}')
-            self.regexes[n] = v
-            if v.form is not None and v.form.kind == kind:
-                self.forms[kind] = (n, v.form)
-            else:
-                probs = c18_rx.diagnose(v.pattern, v.flags, kind) or [('structure', f'denotes the {v.form.kind if v.form else "?"} form')]
-                self.form_problems.extend((n, kind, cat, txt) for cat, txt in probs)
-
+TECHNIQUE = ('sectioned ordered decision tables (path enumeration, canonical atoms versioned by reaching definitions, world enumeration) with '
+             'symbolic row outcomes vs reference rows; CFG constant propagation of the state field; regex-structure/language facts; CFG exception edges')
 
 FORM_OF = {'_RE_TEST': 'test', '_RE_PLAN': 'plan', '_RE_BAILOUT': 'bailout', '_RE_VERSION': 'version',
            '_RE_YAML_START': 'yaml_start', '_RE_YAML_END': 'yaml_end'}
+MAIN_KINDS = ('test', 'plan', 'bailout', 'version')
+FIELDS = ('state', 'yaml_lineno', 'yaml_indent', 'version', 'plan', 'bailed_out', 'found_late_test', 'num_tests', 'last_test', 'highest_test', 'lineno')
+
+
+class _Folder(Folder):
+    """sa.consteval cannot fold `<compiled regex>.pattern` (engine gap); add just that."""
+
+    def _getattr(self, v: T.Any, a: str, e: ast.AST) -> T.Any:
+        if isinstance(v, Regex) and a in ('pattern', 'flags'):
+            return getattr(v, a)
+        return super()._getattr(v, a, e)
+
+
+class Section(T.NamedTuple):
+    kind: str
+    regex: str
+    table: tables.Table
+    node: ast.If
+
+
+class Facts:
+    """Folded constants, regex line forms, NamedTuple fields and the sectioned tables of parse_line."""
+
+    def __init__(self, ctx: RuleCtx):
+        self.repo = ctx.repo
+        self.mod = mod = ctx.repo.module(MTEST)
+        self.cls = mod.cls(PARSER)
+        self.parse_line = mod.func(f'{PARSER}.parse_line')
+        self.parse_test = mod.func(f'{PARSER}.parse_test')
+        self.states: T.Dict[str, int] = {}
+        for name in ('_MAIN', '_AFTER_TEST', '_YAML'):
+            v = self.fold(name)
+            if not isinstance(v, int):
+                raise Undecided(f'{PARSER}.{name} does not fold to an integer: {v!r}')
+            self.states[name] = v
+        self.regexes: T.Dict[str, Regex] = {}
+        self.forms: T.Dict[str, T.Tuple[str, c18_rx.Form]] = {}
+        self.form_problems: T.List[T.Tuple[str, str, str, str]] = []
+        for n, kind in FORM_OF.items():
+            v = self.fold(n)
+            if not isinstance(v, Regex):
+                raise Undecided(f'{PARSER}.{n} does not fold to a compiled pattern: {v!r}')
+            self.regexes[n] = v
+            form = c18_rx.line_form(v.pattern, v.flags)
+            if form is not None and form.kind == kind:
+                self.forms[kind] = (n, form)
+            else:
+                probs = c18_rx.diagnose(v.pattern, v.flags, kind) or [('structure', f'denotes the {form.kind if form else "?"} form')]
+                self.form_problems.extend((n, kind, cat, txt) for cat, txt in probs)
+        self.tuples: T.Dict[str, T.List[str]] = {}
+        for st in self.cls.body:
+            if isinstance(st, ast.ClassDef) and any((attr_chain(b) or '').endswith('NamedTuple') for b in st.bases):
+                self.tuples[st.name] = [x.target.id for x in st.body if isinstance(x, ast.AnnAssign) and isinstance(x.target, ast.Name)]
+        self._sections: T.Optional[T.Any] = None
+
+    def fold(self, name: str) -> T.Any:
+        if not self.mod.has_assign(name, self.cls):
+            raise AnchorMissing(f'{MTEST}: {PARSER}.{name} not found')
+        return _Folder(self.repo, self.mod, self.cls).fold(self.mod.assign_value(name, self.cls))
+
+    def state_of(self, text: str) -> T.Optional[str]:
+        """'self._YAML' / 'TAPParser._YAML' -> '_YAML'."""
+        head, _, tail = text.rpartition('.')
+        return tail if head in ('self', PARSER, 'cls') and tail in self.states else None
+
+    def require_forms(self) -> None:
+        if self.form_problems:
+            raise Undecided('the line-form atoms need all six regex constants to denote their TAP line form: '
+                            + '; '.join(f'{n} ({k}): {t}' for n, k, c, t in self.form_problems[:4]))
+
+    # -- capture groups -----------------------------------------------------------------------------
+    def group_ref(self, e: ast.AST) -> T.Optional[T.Tuple[str, int, str]]:
+        """`<self.RE.match(..)>.group(k)` / `[k]` -> (line form, k, regex constant)."""
+        if isinstance(e, ast.Call) and isinstance(e.func, ast.Attribute) and e.func.attr == 'group' and len(e.args) == 1 and not e.keywords:
+            m, k = e.func.value, e.args[0]
+        elif isinstance(e, ast.Subscript):
+            m, k = e.value, e.slice
+        else:
+            return None
+        if not (isinstance(k, ast.Constant) and isinstance(k.value, int) and not isinstance(k.value, bool)):
+            return None
+        rn = self.match_of(m)
+        if rn is None:
+            return None
+        for kind, (name, form) in self.forms.items():
+            if name == rn:
+                return kind, k.value, rn
+        return None
+
+    def match_of(self, m: ast.AST) -> T.Optional[str]:
+        """`self.RE.match(<anything>)` -> 'RE' for a regex constant of the class."""
+        if isinstance(m, ast.Call) and isinstance(m.func, ast.Attribute) and m.func.attr == 'match' and len(m.args) == 1:
+            c = attr_chain(m.func.value) or ''
+            head, _, tail = c.rpartition('.')
+            if head in ('self', PARSER, 'cls') and tail in self.regexes:
+                return tail
+        return None
+
+    def role(self, ref: T.Tuple[str, int, str]) -> T.Optional[str]:
+        return self.forms[ref[0]][1].roles.get(ref[1])
+
+    def role_ref(self, e: ast.AST, kind: str, role: str) -> bool:
+        r = self.group_ref(e)
+        return r is not None and r[0] == kind and self.role(r) == role
+
+    # -- constructors ---------------------------------------------------------------------------------
+    def ctor(self, e: ast.AST) -> T.Optional[T.Tuple[str, T.Dict[str, ast.AST], str]]:
+        """`self.Plan(...)` -> ('Plan', {field: operand}, arity problem or '')."""
+        if not isinstance(e, ast.Call):
+            return None
+        c = attr_chain(e.func) or ''
+        head, _, tail = c.rpartition('.')
+        if head not in ('self', PARSER, 'cls') or tail not in self.tuples:
+            return None
+        fields = self.tuples[tail]
+        out: T.Dict[str, ast.AST] = {}
+        prob = ''
+        if len(e.args) > len(fields) or any(isinstance(a, ast.Starred) for a in e.args):
+            prob = f'{tail}() takes {len(fields)} operands, {len(e.args)} positional given'
+        for f_, a in zip(fields, e.args):
+            out[f_] = a
+        for k in e.keywords:
+            if k.arg is None or k.arg not in fields or k.arg in out:
+                prob = prob or f'{tail}() has no (free) field {k.arg!r}'
+            else:
+                out[k.arg] = k.value
+        if not prob and set(out) != set(fields):
+            prob = f'{tail}() misses {sorted(set(fields) - set(out))}'
+        return tail, out, prob
+
+    # -- sections of parse_line --------------------------------------------------------------------------
+    def sections(self) -> 'Sections':
+        if self._sections is None:
+            self.require_forms()
+            self._sections = Sections(self)
+        return T.cast(Sections, self._sections)
+
+
+class Sections:
+    def __init__(self, f: Facts):
+        fn = f.parse_line
+        body = [s for s in fn.body if not (isinstance(s, ast.Expr) and isinstance(s.value, ast.Constant))]
+        ps = param_names(fn)
+        if len(ps) != 1:
+            raise Undecided('parse_line: expected exactly one parameter (the line)')
+        self.line = next(iter(ps))
+        if len(body) != 1 or not isinstance(body[0], ast.If):
+            raise Undecided('parse_line: expected one top-level `if line is not None: ... else: ...`')
+        top = body[0]
+        a, v = canon(_Sub({}, ps).visit(_copy(top.test)), True)
+        if a != Atom('is', ('ARG1', 'None')):
+            raise Undecided(f'parse_line: top-level test is not `line is [not] None`: {short(top.test)}')
+        text, eof = (top.orelse, top.body) if v else (top.body, top.orelse)
+        # the ladder of `m = RE.match(line); if m:` sections
+        marks: T.List[T.Tuple[int, int, str, str, ast.AST, ast.If]] = []    # (first stmt index, if index, regex, var, match expr, if)
+        for i, st in enumerate(text):
+            if isinstance(st, ast.If):
+                var, mexpr, first = None, None, i
+                t = st.test
+                if isinstance(t, ast.NamedExpr) and isinstance(t.target, ast.Name):
+                    var, mexpr = t.target.id, t.value
+                else:
+                    nm = t.id if isinstance(t, ast.Name) else (t.left.id if isinstance(t, ast.Compare) and isinstance(t.left, ast.Name) and len(t.ops) == 1
+                                                               and isinstance(t.ops[0], ast.IsNot) and isinstance(t.comparators[0], ast.Constant)
+                                                               and t.comparators[0].value is None else None)
+                    prev = text[i - 1] if i > 0 else None
+                    if nm and isinstance(prev, ast.Assign) and len(prev.targets) == 1 and isinstance(prev.targets[0], ast.Name) and prev.targets[0].id == nm:
+                        var, mexpr, first = nm, prev.value, i - 1
+                rn = f.match_of(mexpr) if mexpr is not None else None
+                if rn is not None and var is not None and FORM_OF.get(rn) in MAIN_KINDS:
+                    if st.orelse:
+                        raise Undecided(f'parse_line: the {rn} section has an else branch')
+                    marks.append((first, i, rn, var, mexpr, st))   # type: ignore[arg-type]
+        if not marks:
+            raise Undecided('parse_line: no `m = REGEX.match(line); if m:` section found')
+        for (a1, b1, *_), (a2, *_) in zip(marks, marks[1:]):
+            if a2 != b1 + 1:
+                raise Undecided('parse_line: statements between the line-form sections')
+        kinds = [FORM_OF[mk[2]] for mk in marks]
+        if sorted(kinds) != sorted(MAIN_KINDS):
+            raise Undecided(f'parse_line: line-form sections found for {kinds}, expected one each of {list(MAIN_KINDS)}')
+        self.pre, pre_exit = build(fn, text[:marks[0][0]], 'parse_line[state, blank/diagnostic]')
+        self.by_kind: T.Dict[str, Section] = {}
+        for first, i, rn, var, mexpr, st in marks:
+            seed = dict(pre_exit)
+            seed[var] = _Sub(pre_exit, ps).visit(_copy(mexpr))
+            tab, _ = build(fn, st.body, f'parse_line[{FORM_OF[rn]} line]', seed)
+            self.by_kind[FORM_OF[rn]] = Section(FORM_OF[rn], rn, tab, st)
+        self.post, _ = build(fn, text[marks[-1][1] + 1:], 'parse_line[unknown line]', dict(pre_exit))
+        self.eof, _ = build(fn, eof, 'parse_line[end of stream]')
+        self.line_def = norm(pre_exit[self.line]) if self.line in pre_exit else 'ARG1'
+        self.all_tables = [self.pre] + [s.table for s in self.by_kind.values()] + [self.post, self.eof]
+
+
+def _copy(e: ast.AST) -> ast.AST:
+    import copy
+    return copy.deepcopy(e)
 
 
 def facts(ctx: RuleCtx) -> Facts:
@@ -123,321 +269,118 @@ def facts(ctx: RuleCtx) -> Facts:
 
 
 # ----------------------------------------------------------------------------------------------
-# inputs of parse_line: lazy domains shared by the code side and the reference side
+# atom and effect shapes
 # ----------------------------------------------------------------------------------------------
-class LineDom(Hooks):
-    opaque_methods = frozenset({'parse_test'})
+def _e(text: str) -> ast.AST:
+    return ast.parse(text, mode='eval').body
 
-    def __init__(self, facts: Facts, world: World):
-        self.f = facts
-        self.w = world
-        self.initial_plan = LazyObj(f'{PARSER}.Plan', self._plan_attr, 'plan seen earlier')
 
-    def is_eof(self) -> bool:
-        return self.w.choose(('line',), ['text', 'eof']) == 'eof'
+def _truthy(a: Atom) -> T.Optional[T.Tuple[ast.AST, bool]]:
+    """truth(X) -> (X, False); `X is None` -> (X, True): the atom says whether X is set."""
+    if a.kind == 'truth':
+        return _e(a.args[0]), False
+    if a.kind == 'is' and a.args[1] == 'None':
+        return _e(a.args[0]), True
+    return None
 
-    def conc(self, v: T.Any) -> T.Any:
-        if isinstance(v, LazyInt):
-            return self.w.choose(v.key, v.domain) + v.off
-        return v
 
-    def _plan_attr(self, attr: str) -> T.Any:
-        dom = {'num_tests': [0, 4, 9], 'late': [False, True], 'skipped': [False], 'explanation': [None]}.get(attr)
-        if dom is None:
-            return Unknown(f'plan.{attr}')
-        return self.w.choose(('field', 'plan.' + attr), dom)
+def _thresh(a: Atom, subject: T.Callable[[str], bool]) -> T.Optional[T.Tuple[int, bool]]:
+    """Integer threshold atoms: returns (k, flip) with  atom == (subject >= k) xor flip."""
+    if a.kind != 'cmp' or a.args[0] != 'lt':
+        return None
+    x, y = a.args[1], a.args[2]
+    cx, cy = _int_const(x), _int_const(y)
+    if cy is not None and subject(x):
+        return cy, True               # x < k
+    if cx is not None and subject(y):
+        return cx + 1, False          # k < y  ==  y >= k+1
+    return None
 
-    def field(self, name: str) -> T.Any:
-        f = self.f
-        key = ('field', name)
-        if name == 'state':
-            return self.w.choose(key, [f.MAIN, f.AFTER, f.YAML])
-        if name == 'version':
-            return self.w.choose(key, [12, 13])
-        if name == 'plan':
-            return self.initial_plan if self.w.choose(key, ['none', 'seen']) == 'seen' else None
-        if name in ('found_late_test', 'bailed_out'):
-            return self.w.choose(key, [False, True])
-        if name == 'lineno':
-            return LazyInt(key, [0, 1])
-        if name == 'num_tests':
-            return LazyInt(key, [0, 4, 6] if self.is_eof() else [0, 2])
-        if name == 'last_test':
-            return LazyInt(key, [0, 3])
-        if name == 'highest_test':
-            return LazyInt(key, [0, 4, 7])
-        if name == 'yaml_lineno':
-            return self.w.choose(key, [7])
-        if name == 'yaml_indent':
-            return self.w.choose(key, [INDENT])
-        return NODEFAULT
 
-    def atom(self, name: str) -> bool:
-        return bool(self.w.choose(('atom', name), [False, True]))
+def _int_const(text: str) -> T.Optional[int]:
+    try:
+        v = ast.literal_eval(text)
+    except Exception:
+        return None
+    return v if isinstance(v, int) and not isinstance(v, bool) else None
 
-    def line_class(self) -> str:
-        return T.cast(str, self.w.choose(('atom', 'class'), ['test', 'plan', 'bailout', 'version', 'unknown']))
 
-    def indent_token(self) -> T.Any:
-        return INDENT
+def _state_atom(f: Facts, a: Atom) -> T.Optional[str]:
+    if a.kind == 'cmp' and a.args[0] == 'eq':
+        x, y = a.args[1], a.args[2]
+        if x == 'self.state' and f.state_of(y):
+            return f.state_of(y)
+        if y == 'self.state' and f.state_of(x):
+            return f.state_of(x)
+    return None
 
-    def group(self, form: c18_rx.Form, index: int) -> T.Any:
-        role = form.roles[index]
-        reps = list(REPS.get((form.kind, role), []))
-        if not reps:
-            raise Undecided(f'no representatives for group {index} ({role}) of the {form.kind} form')
-        if role == 'digits':
-            lo, hi = form.bounds[index]
-            if hi is None or hi > INT_MAX_STR_DIGITS:
-                reps.append(_Huge(f'{form.kind}-line number ({self.f.forms[form.kind][0]} group {index})'))
-        if form.optional.get(index):
-            lead = form.leader.get(index, index)
-            if lead != index:
-                if self.group(form, lead) is None:
-                    return None
+
+def _events(f: Facts, row: Row) -> T.List[T.Tuple[str, T.Any, Eff]]:
+    """The events a row yields, in order: (constructor name | 'forward:<method>' | '?', operands, effect)."""
+    out: T.List[T.Tuple[str, T.Any, Eff]] = []
+    for e in row.effs():
+        if e.kind == 'yield':
+            c = f.ctor(e.value) if e.value is not None else None
+            if c is not None:
+                out.append((c[0], c, e))
             else:
-                reps = [None] + reps
-        return self.w.choose(('group', form.kind, role), reps)
-
-    def grp(self, kind: str, role: str) -> T.Any:
-        if kind not in self.f.forms:
-            raise Undecided(f'no regex constant denotes the {kind} line form')
-        form = self.f.forms[kind][1]
-        for i, r in form.roles.items():
-            if r == role:
-                return self.group(form, i)
-        raise Undecided(f'{kind} form has no {role} group')
-
-
-class Ref(T.NamedTuple):
-    label: str
-    events: T.List[T.Any]
-    upd: T.Dict[str, T.Any]
-    lenient: bool = False            # over-long number: only "no exception, an Error is reported" is required
-    alt: T.Optional[T.List[T.Any]] = None   # the event list with the beyond-plan decision flipped (attributes a mismatch to R3)
-
-
-def _ref_line(d: LineDom) -> Ref:
-    """Reference TAP 12/13 step (DESIGN A.17), written independently of the code under analysis."""
-    f, F, c = d.f, d.field, d.conc
-    ev: T.List[T.Any] = []
-    upd: T.Dict[str, T.Any] = {}
-    if d.is_eof():
-        if F('state') == f.YAML:
-            ev.append(ERR)                                   # unterminated YAML block
-        if F('bailed_out'):
-            return Ref('end of stream', ev, upd)             # silent after Bail out!
-        plan = F('plan')
-        if plan is not None and c(F('num_tests')) != plan.getter('num_tests'):
-            ev.append(ERR)                                   # too few / too many
-            return Ref('end of stream', ev, upd)
-        if c(F('highest_test')) != c(F('num_tests')):
-            ev.append(ERR)                                   # duplicate / missing numbers
-        return Ref('end of stream', ev, upd)
-    lineno = F('lineno') + 1
-    upd['lineno'] = lineno
-    st = F('state')
-    if st == f.AFTER:
-        if F('version') >= 13 and d.atom('yaml_start'):
-            upd.update(state=f.YAML, yaml_lineno=lineno, yaml_indent=d.grp('yaml_start', 'indent'))
-            return Ref('YAML block start', ev, upd)
-        upd['state'] = f.MAIN
-    elif st == f.YAML:
-        if d.atom('yaml_end'):
-            upd['state'] = f.MAIN
-            return Ref('YAML block end', ev, upd)
-        if d.atom('indented'):
-            return Ref('YAML block body', ev, upd)
-        ev.append(ERR)                                       # YAML block not terminated
-        upd['state'] = f.MAIN
-    if d.atom('blank') or d.atom('comment'):
-        return Ref('blank/diagnostic line', ev, upd)
-    k = d.line_class()
-    if k == 'test':
-        plan = F('plan')
-        if plan is not None and plan.getter('late') and not F('found_late_test'):
-            ev.append(ERR)                                   # test after a late plan, once
-            upd['found_late_test'] = True
-        upd['num_tests'] = F('num_tests') + 1
-        g = d.grp('test', 'digits')
-        if is_huge(g):
-            return Ref('test line', ev, upd, lenient=True)
-        num = F('last_test') + 1 if g is None else int(g)
-        upd['last_test'] = num
-        n = c(num)
-        upd['highest_test'] = max(c(F('highest_test')), n)
-        exceeds = plan is not None and n > plan.getter('num_tests')
-        call = ('call', 'parse_test', [d.grp('test', 'status') == 'ok', n, d.grp('test', 'name'), d.grp('test', 'directive'), d.grp('test', 'text')])
-        upd['state'] = f.AFTER
-        return Ref('test line', ev + ([ERR] if exceeds else []) + [call], upd, alt=ev + ([] if exceeds else [ERR]) + [call])
-    if k == 'plan':
-        if F('plan') is not None:
-            ev.append(ERR)                                   # second plan
-            return Ref('plan line', ev, upd)
-        g = d.grp('plan', 'digits')
-        if is_huge(g):
-            return Ref('plan line', ev, upd, lenient=True)
-        n = int(g)
-        skipped = n == 0
-        dv = d.grp('plan', 'directive')
-        if dv:
-            if dv.upper().startswith('SKIP'):
-                if n > 0:
-                    ev.append(ERR)
-                skipped = True
+                out.append(('?' + short(e.value, 50), None, e))
+        elif e.kind == 'yieldfrom':
+            v = e.value
+            if isinstance(v, ast.Call) and (attr_chain(v.func) or '').startswith('self.'):
+                out.append(('forward:' + (attr_chain(v.func) or '')[5:], v, e))
             else:
-                ev.append(ERR)
-        p = ('Plan', n, c(F('num_tests')) > 0, skipped, d.grp('plan', 'text'))
-        ev.append(p)
-        upd['plan'] = p
-        return Ref('plan line', ev, upd)
-    if k == 'bailout':
-        ev.append(('Bailout', d.grp('bailout', 'text')))
-        upd['bailed_out'] = True
-        return Ref('Bail out! line', ev, upd)
-    if k == 'version':
-        if c(lineno) != 1:
-            ev.append(ERR)
-            return Ref('version line', ev, upd)
-        g = d.grp('version', 'digits')
-        if is_huge(g):
-            return Ref('version line', ev, upd, lenient=True)
-        v = int(g)
-        if v < 13:
-            ev.append(ERR)
-            upd['version'] = ('<13',)
-        else:
-            ev.append(('Version', v))
-            upd['version'] = v
-        return Ref('version line', ev, upd)
-    ev.append(('UnknownLine', 'LINE', c(lineno)))
-    return Ref('unknown line', ev, upd)
-
-
-def _nf(d: T.Any, v: T.Any) -> T.Any:
-    """Normal form of an event / value produced by the code, comparable with the reference's."""
-    v = d.conc(v)
-    if isinstance(v, Line):
-        return 'LINE'
-    if isinstance(v, Obj):
-        name = v.cls.split('.')[-1]
-        if name == 'Error':
-            return ERR
-        return (name,) + tuple(_nf(d, x) for x in v.fields.values())
-    if isinstance(v, LazyObj):
-        return ('initial', v.label)
-    if isinstance(v, CallEvent):
-        return ('call', v.name, [_nf(d, x) for x in v.args.values()])
-    if isinstance(v, Unknown):
-        return ('?', v.why)
-    return v
-
-
-class Diff(T.NamedTuple):
-    kind: str        # state | events | flags | counters | exceeds | raise
-    what: str
-    msg: str
-
-
-class LineRun(T.NamedTuple):
-    label: str
-    state0: T.Optional[int]
-    res: Result
-    diffs: T.List[Diff]
-
-
-def _field_diffs(d: LineDom, res: Result, ref: Ref) -> T.List[Diff]:
-    out: T.List[Diff] = []
-    f = d.f
-    for name in STATE_FIELDS + EVENT_FIELDS + COUNTER_FIELDS:
-        chain = 'self.' + name
-        in_code, in_ref = chain in res.heap, name in ref.upd
-        if not in_code and not in_ref:
-            continue
-        if name in ('yaml_lineno', 'yaml_indent') and not in_ref:
-            continue          # only meaningful while a YAML block is open
-        got = res.heap[chain] if in_code else d.field(name)
-        want = ref.upd[name] if in_ref else d.field(name)
-        if isinstance(got, LazyInt) and got.same(want):
-            continue
-        g, w = _nf(d, got), _nf(d, want)
-        if name == 'plan' and not in_ref:
-            ok = got is want
-        elif name == 'version' and w == ('<13',):
-            ok = isinstance(g, int) and g < 13
-        elif name == 'state':
-            ok = g == w
-            g, w = f.state_name.get(g, g), f.state_name.get(w, w)
-        else:
-            ok = (g == w) and type(g) is type(w)
-        if not ok:
-            kind = 'state' if name in STATE_FIELDS else 'flags' if name in EVENT_FIELDS else 'counters'
-            out.append(Diff(kind, f'field {name}', f'{name} becomes {g!r}, the reference step gives {w!r}'))
+                out.append(('?' + short(v, 50), None, e))
     return out
 
 
-def _run_line(facts: Facts, w: World) -> LineRun:
-    d = LineDom(facts, w)
-    fn = facts.parse_line
-    ps = params_of(fn)
-    if len(ps) != 1:
-        raise Undecided('parse_line: expected exactly one parameter (the line)')
-    line = None if d.is_eof() else Line(False)
-    it = Interp(facts.static, w, d)
-    res = it.run(fn.body, PARSER, {ps[0]: line})
-    ref = _ref_line(d)
-    state0 = w.vals.get(('field', 'state'))
-    diffs: T.List[Diff] = []
-    if res.raised is not None:
-        diffs.append(Diff('raise', res.raised.exc, str(res.raised)))
-        return LineRun(ref.label, state0, res, diffs)
-    got = [_nf(d, e) for e in res.events]
-    if ref.lenient:
-        if ERR not in got:
-            diffs.append(Diff('events', 'over-long number', f'no Error event for a number of more than {INT_MAX_STR_DIGITS} digits; events: {got}'))
-        return LineRun(ref.label, state0, res, diffs)
-    if got != ref.events:
-        if ref.alt is not None and got == ref.alt:
-            diffs.append(Diff('exceeds', 'beyond-plan test', f'events {got}; the reference compares the test number with plan.num_tests by `>` and gives {ref.events}'))
-        else:
-            diffs.append(Diff('events', 'event list', f'events {got}; the reference step gives {ref.events}'))
-    diffs.extend(_field_diffs(d, res, ref))
-    return LineRun(ref.label, state0, res, diffs)
+def _names(evs: T.List[T.Tuple[str, T.Any, Eff]]) -> T.List[str]:
+    return [n for n, _, _ in evs]
+
+
+def _final(row: Row, field: str) -> T.Optional[str]:
+    v = row.final.get('self.' + field)
+    return norm(v) if v is not None else None
+
+
+class Diff(T.NamedTuple):
+    rule: str
+    func: str
+    construct: str
+    msg: str
+    node: T.Optional[ast.AST]
 
 
 class Model:
-    """All abstract runs of parse_line and parse_test, computed once per check."""
+    """All table comparisons of parse_line / parse_test, computed once per check and reported per rule."""
 
     def __init__(self, ctx: RuleCtx):
-        self.facts = facts(ctx)
-        f = self.facts
-        if f.form_problems:
-            raise Undecided('the line-form abstraction needs all six regex constants to denote their TAP line form: '
-                            + '; '.join(f'{n} ({k}): {t}' for n, k, c, t in f.form_problems[:4]))
-        self.gaps: T.List[str] = []
-        self.line_runs = explore(lambda w: _run_line(f, w))
-        self.test_runs = _explore_parse_test(f)
-        self._coverage(f.parse_line, 'parse_line')
-        self._coverage(f.parse_test, 'parse_test')
+        self.f = f = facts(ctx)
+        self.s = f.sections()
+        self.diffs: T.List[Diff] = []
+        self.oks: T.Dict[str, T.List[str]] = {}
+        self.qn = f'{PARSER}.parse_line'
+        _check_pre(self)
+        _check_test(self)
+        _check_plan(self)
+        _check_small(self)
+        _check_eof(self)
+        self.pt_checked = False
 
-    def _coverage(self, fn: T.Any, name: str) -> None:
-        """Every condition atom / polarity the engine's path enumeration sees was exercised by some world."""
-        miss: T.Dict[str, None] = {}
-        n = 0
-        for p in enumerate_paths(fn.body, unroll=1):
-            for e in p.events:
-                if e.kind == 'cond' and e.node is not None:
-                    n += 1
-                    if (id(e.node), bool(e.val)) not in self.facts.static.cov:
-                        miss.setdefault(f'`{short(e.node, 60)}` {"true" if e.val else "false"}')
-        if miss:
-            self.gaps.append(f'{name}: branches outside the abstraction (no world exercises them): ' + '; '.join(list(miss)[:6]))
-        setattr(self, f'atoms_{name}', n)
+    def diff(self, rule: str, construct: str, msg: str, node: T.Optional[ast.AST] = None, func: T.Optional[str] = None) -> None:
+        self.diffs.append(Diff(rule, func or self.qn, construct, msg, node))
 
-    def require_covered(self) -> None:
-        """Differences found in some world are definite; *agreement* is only claimed when every branch was exercised."""
-        if self.gaps:
-            raise Undecided('; '.join(self.gaps))
+    def ok(self, rule: str, text: str) -> None:
+        self.oks.setdefault(rule, []).append(text)
+
+    def emit(self, ctx: RuleCtx, rule: str) -> None:
+        for t in self.oks.get(rule, []):
+            ctx.ok(t)
+        seen: T.Set[T.Tuple[str, str]] = set()
+        for d in self.diffs:
+            if d.rule == rule and (d.func, d.construct) not in seen:
+                seen.add((d.func, d.construct))
+                ctx.violation(self.f.mod, d.func, d.construct, d.msg, d.node)
 
 
 def model(ctx: RuleCtx) -> Model:
@@ -453,162 +396,698 @@ def model(ctx: RuleCtx) -> Model:
     return T.cast(Model, m)
 
 
-def _report(ctx: RuleCtx, mod: Module, func: str, runs: T.Sequence[T.Any], kinds: T.Tuple[str, ...], group: T.Callable[[T.Any], str],
-            what: str, only_exc: T.Optional[T.Callable[[str], bool]] = None) -> None:
-    """One obligation per group of worlds: discharged, or one violation per distinct (group, difference)."""
-    by: T.Dict[str, T.List[T.Any]] = {}
-    for w, r in runs:
-        by.setdefault(group(r), []).append((w, r))
-    for g, items in by.items():
-        bad: T.Dict[T.Tuple[str, str], T.List[T.Any]] = {}
-        for w, r in items:
-            for df in r.diffs:
-                if df.kind in kinds and (df.kind != 'raise' or only_exc is None or only_exc(df.what)):
-                    bad.setdefault((df.kind, df.what), []).append((w, r, df))
-        if not bad:
-            ctx.ok(f'{g}: {what} agree with the reference in {len(items)} worlds')
+def _split(m: Model, table: tables.Table, bad: T.List[T.Tuple[Row, T.Any, T.Any, T.Dict[str, T.Optional[bool]]]],
+           rule_of: T.Dict[str, str], n: int, what: T.Dict[str, str]) -> None:
+    """Attribute component-wise differences of (got, want) dicts to rules; record one ok per rule when clean."""
+    hit: T.Set[str] = set()
+    for row, got, want, view in bad:
+        for part in want:
+            if got.get(part) != want[part]:
+                rule = rule_of[part]
+                hit.add(rule)
+                vw = ', '.join(f'{"" if v else "not "}{k}' for k, v in view.items() if v is not None)
+                node = row.items[-1].raw if row.items else None
+                m.diff(rule, f'{table.name}: {part}', f'{table.name}, row [{vw}]: {part} is {got.get(part)!r}; the reference row has {want[part]!r}', node)
+    for rule in sorted(set(rule_of.values())):
+        if rule not in hit:
+            m.ok(rule, f'{table.name}: {what[rule]} agree with the reference rows on {n} worlds ({len(table.rows)} rows)')
+
+
+# ----------------------------------------------------------------------------------------------
+# the state / blank prefix of parse_line
+# ----------------------------------------------------------------------------------------------
+def _line_text(s: Sections, text: str) -> T.Optional[str]:
+    """'raw' for the unstripped line parameter, 'stripped' for line.rstrip()."""
+    if text == 'ARG1':
+        return 'raw'
+    if text == 'ARG1.rstrip()':
+        return 'stripped'
+    return None
+
+
+def _pre_sem(m: Model) -> T.Callable[[Atom], T.Optional[T.Tuple[str, bool]]]:
+    f, s = m.f, m.s
+
+    def sem(a: Atom) -> T.Optional[T.Tuple[str, bool]]:
+        st = _state_atom(f, a)
+        if st:
+            return 'S' + st, False
+        th = _thresh(a, lambda x: x == 'self.version')
+        if th:
+            return f'version>={th[0]}', th[1]
+        t = _truthy(a)
+        if t is None:
+            return None
+        x, flip = t
+        rn = f.match_of(x)
+        if rn and FORM_OF[rn] in ('yaml_start', 'yaml_end') and _line_text(s, norm(x.args[0])):   # type: ignore[attr-defined]
+            return FORM_OF[rn], flip
+        if _line_text(s, norm(x)) == 'stripped':
+            return 'blank', not flip
+        if isinstance(x, ast.Call) and isinstance(x.func, ast.Attribute) and x.func.attr == 'startswith' and len(x.args) == 1 and _line_text(s, norm(x.func.value)):
+            if isinstance(x.args[0], ast.Constant) and x.args[0].value == '#' and _line_text(s, norm(x.func.value)) == 'stripped':
+                return 'diagnostic', flip
+            if norm(x.args[0]) == 'self.yaml_indent':
+                return 'indented', flip
+        return None
+    return sem
+
+
+def _pre_extra() -> T.List[Atom]:
+    texts = ['self.state == self._AFTER_TEST', 'self.state == self._YAML', 'self.version < 13', 'self._RE_YAML_START.match(ARG1)',
+             'self._RE_YAML_END.match(ARG1)', 'ARG1.startswith(self.yaml_indent)', 'ARG1.rstrip()', "ARG1.rstrip().startswith('#')"]
+    return [canon(_e(t), True)[0] for t in texts]
+
+
+def _one_state(view: T.Dict[str, T.Optional[bool]]) -> T.Optional[str]:
+    on = [k for k in ('S_MAIN', 'S_AFTER_TEST', 'S_YAML') if view.get(k)]
+    if len(on) > 1:
+        return None
+    if on:
+        return on[0][1:]
+    if view.get('S_MAIN') is False:
+        return None          # not AFTER_TEST, not YAML, not MAIN: outside the three-state domain (closed by R1)
+    return '_MAIN'
+
+
+def _check_pre(m: Model) -> None:
+    f, s = m.f, m.s
+    tab = s.pre
+
+    def ref(v: T.Dict[str, T.Optional[bool]]) -> T.Any:
+        st = _one_state(v)
+        out: T.Dict[str, T.Any] = {'state': None, 'YAML bookkeeping': False, 'events': [], 'leaves by': None}
+        if st == '_AFTER_TEST':
+            if v.get('version>=13') and v.get('yaml_start'):
+                out.update({'state': '_YAML', 'YAML bookkeeping': True, 'leaves by': 'return'})
+                return out
+            out['state'] = '_MAIN'
+        elif st == '_YAML':
+            if v.get('yaml_end'):
+                out.update({'state': '_MAIN', 'leaves by': 'return'})
+                return out
+            if v.get('indented'):
+                out['leaves by'] = 'return'
+                return out
+            out.update({'state': '_MAIN', 'events': ['Error']})
+        out['leaves by'] = 'return' if (v.get('blank') or v.get('diagnostic')) else 'fall'
+        return out
+
+    def got(r: Row, v: T.Dict[str, T.Optional[bool]]) -> T.Any:
+        fs = _final(r, 'state')
+        ind, ln = r.final.get('self.yaml_indent'), _final(r, 'yaml_lineno')
+        rec = ind is not None and f.role_ref(ind, 'yaml_start', 'indent') and ln is not None and ln == _final(r, 'lineno')
+        return {'state': None if fs is None else (f.state_of(fs) or fs), 'YAML bookkeeping': bool(rec), 'events': _names(_events(f, r)),
+                'leaves by': r.outcome[0]}
+    n, bad, holes = compare(tab, _pre_sem(m), ref, got, _pre_extra(), consistent=lambda v: _one_state(v) is not None)
+    _split(m, tab, bad, {'state': 'C18.R1', 'YAML bookkeeping': 'C18.R1', 'events': 'C18.R2', 'leaves by': 'C18.R2'}, n,
+           {'C18.R1': 'next state and YAML bookkeeping', 'C18.R2': 'events and blank/diagnostic handling'})
+    for v in holes:
+        vw = ', '.join(f'{"" if x else "not "}{k}' for k, x in v.items() if x is not None)
+        m.diff('C18.R1', f'{tab.name}: state assertion', f'no row of {tab.name} can complete for [{vw}]: an assertion on the state fails there')
+    if not holes:
+        m.ok('C18.R1', f'{tab.name}: some row completes in every consistent world (the state assertion never cuts a path)')
+    badln = [r for r in tab.rows if _final(T.cast(Row, r), 'lineno') != 'self.lineno + 1']
+    if badln:
+        m.diff('C18.R3', f'{tab.name}: lineno', f'{len(badln)} of {len(tab.rows)} rows do not advance lineno by exactly one: lineno becomes '
+               f'{_final(T.cast(Row, badln[0]), "lineno")!r}', badln[0].path.events[0].node if badln[0].path.events else None)
+    else:
+        m.ok('C18.R3', f'{tab.name}: lineno := lineno + 1 exactly once on all {len(tab.rows)} rows')
+
+
+# ----------------------------------------------------------------------------------------------
+# the test-line section
+# ----------------------------------------------------------------------------------------------
+def _is_inc(e: ast.AST, field: str) -> bool:
+    return isinstance(e, ast.BinOp) and isinstance(e.op, ast.Add) and sorted((norm(e.left), norm(e.right))) == sorted((f'self.{field}', '1'))
+
+
+def _new_last(f: Facts, e: ast.AST) -> T.Optional[str]:
+    """Shape of the new test number: 'both' = last_test + 1 if <number group> is None else int(<number group>);
+    'implicit' = last_test + 1; 'explicit' = int(<number group>)."""
+    def conv(x: ast.AST) -> bool:
+        return isinstance(x, ast.Call) and isinstance(x.func, ast.Name) and x.func.id == 'int' and len(x.args) == 1 and f.role_ref(x.args[0], 'test', 'digits')
+    if _is_inc(e, 'last_test'):
+        return 'implicit'
+    if conv(e):
+        return 'explicit'
+    if isinstance(e, ast.IfExp):
+        a, v = canon(e.test, True)
+        t = _truthy(a)
+        if t is not None and f.role_ref(t[0], 'test', 'digits'):
+            isset = v != t[1]          # the test being true means: the number group is set
+            set_br, none_br = (e.body, e.orelse) if isset else (e.orelse, e.body)
+            if conv(set_br) and _is_inc(none_br, 'last_test'):
+                return 'both'
+    return None
+
+
+def _check_test(m: Model) -> None:
+    f, s = m.f, m.s
+    sec = s.by_kind['test']
+    tab = sec.table
+
+    def sem(a: Atom) -> T.Optional[T.Tuple[str, bool]]:
+        if a.kind == 'cmp' and a.args[0] == 'lt' and a.args[1] == 'self.plan.num_tests' and _new_last(f, _e(a.args[2])):
+            return 'number beyond plan', False
+        if a.kind == 'cmp' and a.args[0] == 'lt' and a.args[1] == 'self.highest_test' and _new_last(f, _e(a.args[2])):
+            return 'number above highest', False
+        if a.kind == 'cmp' and any(x in t for t in a.args[1:] for x in ('self.plan.num_tests', 'self.last_test', 'self.num_tests', 'self.highest_test')):
+            m.diff('C18.R3', f'{tab.name}: counter comparison', f'{tab.name} tests `{a!r}`; the reference compares the new test number with the plan '
+                   f'as `self.plan.num_tests < <new last_test>` (and nothing else among the counters)', sec.node)
+            return f'other:{a!r}', False
+        t = _truthy(a)
+        if t is None:
+            return None
+        x, flip = t
+        nx = norm(x)
+        if nx in ('self.plan', 'self.plan.late', 'self.found_late_test'):
+            return {'self.plan': 'plan', 'self.plan.late': 'late plan', 'self.found_late_test': 'late test seen'}[nx], flip
+        if f.role_ref(x, 'test', 'digits'):
+            return 'explicit number', flip
+        return None
+
+    def ref(v: T.Dict[str, T.Optional[bool]]) -> T.Any:
+        late_err = bool(v.get('plan') and v.get('late plan') and not v.get('late test seen'))
+        beyond = bool(v.get('plan') and v.get('number beyond plan'))
+        return {'events': ['Error'] * late_err + ['Error'] * beyond + ['forward:parse_test'], 'late-test flag set': late_err,
+                'state': '_AFTER_TEST', 'leaves by': 'return'}
+
+    def got(r: Row, v: T.Dict[str, T.Optional[bool]]) -> T.Any:
+        fs = _final(r, 'state')
+        return {'events': _names(_events(f, r)), 'late-test flag set': _final(r, 'found_late_test') == 'True',
+                'state': None if fs is None else (f.state_of(fs) or fs), 'leaves by': r.outcome[0]}
+    extra = [canon(_e(t), True)[0] for t in ('self.plan', 'self.plan.late', 'self.found_late_test')]
+    n, bad, holes = compare(tab, sem, ref, got, extra)
+    _split(m, tab, bad, {'events': 'C18.R2', 'late-test flag set': 'C18.R2', 'state': 'C18.R1', 'leaves by': 'C18.R2'}, n,
+           {'C18.R1': 'every row ends in AFTER_TEST', 'C18.R2': 'events (late-plan error once, beyond-plan error, subtest) and the late-test flag'})
+    # R3: effect shapes, row by row
+    probs: T.Dict[str, ast.AST] = {}
+    for r_ in tab.rows:
+        r = T.cast(Row, r_)
+        node = r.items[-1].raw if r.items else sec.node
+        nt = r.final.get('self.num_tests')
+        if nt is None or not _is_inc(nt, 'num_tests'):
+            probs.setdefault(f'num_tests becomes `{short(nt, 60)}`; every test line counts exactly once (num_tests + 1)', node)
+        lt = r.final.get('self.last_test')
+        shape = _new_last(f, lt) if lt is not None else None
+        isset = None
+        for a, v in r.conds.items():
+            t = _truthy(a)
+            if t is not None and f.role_ref(t[0], 'test', 'digits'):
+                isset = v != t[1]
+        if not (shape == 'both' or (shape == 'implicit' and isset is False) or (shape == 'explicit' and isset is True)):
+            probs.setdefault(f'last_test becomes `{short(lt, 90)}`; the reference is last_test + 1 if the number group is None else int(number group)', node)
             continue
-        for (kind, wt), lst in bad.items():
-            w, r, df = lst[0]
-            node = r.res.raised.node if (kind == 'raise' and r.res.raised is not None and r.res.raised.node is not None) else r.res.last
-            ctx.violation(mod, func, f'{g}: {wt}', f'{df.msg} - in {len(lst)} of {len(items)} worlds, e.g. [{w.describe()}]', node)
+        nl = norm(lt)
+        ht = r.final.get('self.highest_test')
+        above = r.conds.get(Atom('cmp', ('lt', 'self.highest_test', nl)))
+        ok_h = (ht is not None and isinstance(ht, ast.Call) and norm(ht.func) == 'max' and sorted(norm(x) for x in ht.args) == sorted(('self.highest_test', nl))
+                and not ht.keywords) or (above is True and ht is not None and norm(ht) == nl) or (above is False and ht is None)
+        if not ok_h:
+            probs.setdefault(f'highest_test becomes `{short(ht, 90)}`; the reference is max(highest_test, <new last_test>)', node)
+        for name, call, e in _events(f, r):
+            if name == 'forward:parse_test':
+                ops = _bind_call(f.parse_test, call)
+                if ops is None or len(ops) < 2 or norm(ops[1]) != nl:
+                    probs.setdefault(f'the subtest is numbered `{short(ops[1], 60) if ops and len(ops) > 1 else "?"}`, not with the new last_test', e.raw)
+    for msg, node in probs.items():
+        m.diff('C18.R3', f'{tab.name}: {msg.split(" becomes")[0].split(" is numbered")[0]}', f'{tab.name}: {msg}', node)
+    if not probs:
+        m.ok('C18.R3', f'{tab.name}: on all {len(tab.rows)} rows num_tests := num_tests + 1, last_test := last_test + 1 if the number group is None '
+                       f'else int(group), highest_test := max(highest_test, new last_test), the subtest carries the new last_test')
+    # R2: operands of the forwarded subtest
+    oprob: T.Dict[str, ast.AST] = {}
+    for r_ in tab.rows:
+        for name, call, e in _events(f, T.cast(Row, r_)):
+            if name != 'forward:parse_test':
+                continue
+            ops = _bind_call(f.parse_test, call)
+            if ops is None or len(ops) != 5:
+                oprob.setdefault(f'parse_test is called with unexpected operands `{short(call, 80)}`', e.raw)
+                continue
+            a, v = canon(ops[0], True)
+            okc = (a.kind == 'cmp' and a.args[0] == 'eq' and v and "'ok'" in a.args[1:] and
+                   any(f.role_ref(_e(x), 'test', 'status') for x in a.args[1:] if x != "'ok'"))
+            if not okc:
+                oprob.setdefault(f'`ok` operand is `{short(ops[0], 60)}`, not <status group> == \'ok\'', e.raw)
+            for i, role in ((2, 'name'), (3, 'directive'), (4, 'text')):
+                if not f.role_ref(ops[i], 'test', role):
+                    oprob.setdefault(f'operand {i + 1} of parse_test is `{short(ops[i], 60)}`, not the {role} group of the test pattern', e.raw)
+    for msg, node in oprob.items():
+        m.diff('C18.R2', f'{tab.name}: subtest operands', f'{tab.name}: {msg}', node)
+    if not oprob:
+        m.ok('C18.R2', f'{tab.name}: parse_test receives (<status> == \'ok\', number, <name>, <directive>, <explanation>) by group role')
+
+
+def _bind_call(fn: T.Any, call: ast.Call) -> T.Optional[T.List[ast.AST]]:
+    """Operands of a call of method `fn` in parameter order (positional and keywords), None if they do not bind."""
+    ps = list(param_names(fn))
+    if any(isinstance(a, ast.Starred) for a in call.args) or len(call.args) > len(ps):
+        return None
+    out: T.Dict[str, ast.AST] = dict(zip(ps, call.args))
+    for k in call.keywords:
+        if k.arg is None or k.arg not in ps or k.arg in out:
+            return None
+        out[k.arg] = k.value
+    if set(out) != set(ps):
+        return None
+    return [out[p] for p in ps]
+
+
+# ----------------------------------------------------------------------------------------------
+# plan, Bail out!, version, unknown line
+# ----------------------------------------------------------------------------------------------
+def _is_int_of(f: Facts, e: ast.AST, kind: str) -> bool:
+    return isinstance(e, ast.Call) and isinstance(e.func, ast.Name) and e.func.id == 'int' and len(e.args) == 1 and not e.keywords \
+        and f.role_ref(e.args[0], kind, 'digits')
+
+
+def _skip_prefix(f: Facts, x: ast.AST, kind: str) -> bool:
+    """`<directive group>.upper().startswith('SKIP')` (or lower/'skip')."""
+    if not (isinstance(x, ast.Call) and isinstance(x.func, ast.Attribute) and x.func.attr == 'startswith' and len(x.args) == 1
+            and isinstance(x.args[0], ast.Constant)):
+        return False
+    recv = x.func.value
+    if not (isinstance(recv, ast.Call) and isinstance(recv.func, ast.Attribute) and not recv.args and f.role_ref(recv.func.value, kind, 'directive')):
+        return False
+    return (recv.func.attr, x.args[0].value) in (('upper', 'SKIP'), ('lower', 'skip'), ('casefold', 'skip'))
+
+
+def _untouched(m: Model, tab: tables.Table, fields: T.Dict[str, str]) -> None:
+    for fld, rule in fields.items():
+        rows = [r for r in tab.rows if ('self.' + fld) in T.cast(Row, r).final]
+        if rows:
+            r = T.cast(Row, rows[0])
+            m.diff(rule, f'{tab.name}: writes {fld}', f'{tab.name} writes self.{fld} := `{short(r.final["self." + fld], 60)}`; only a test line changes it',
+                   r.items[-1].raw if r.items else None)
+
+
+def _check_plan(m: Model) -> None:
+    f, s = m.f, m.s
+    sec = s.by_kind['plan']
+    tab = sec.table
+
+    def sem(a: Atom) -> T.Optional[T.Tuple[str, bool]]:
+        th = _thresh(a, lambda x: _is_int_of(f, _e(x), 'plan'))
+        if th:
+            return f'count>={th[0]}', th[1]
+        if a.kind == 'cmp' and a.args[0] == 'eq' and a.args[2] == '0' and _is_int_of(f, _e(a.args[1]), 'plan'):
+            return 'count>=1', True
+        t = _truthy(a)
+        if t is None:
+            return None
+        x, flip = t
+        if norm(x) == 'self.plan':
+            return 'plan seen', flip
+        if f.role_ref(x, 'plan', 'directive'):
+            return 'directive', flip
+        if _skip_prefix(f, x, 'plan'):
+            return 'SKIP directive', flip
+        return None
+
+    def sem_or_free(a: Atom) -> T.Optional[T.Tuple[str, bool]]:
+        r = sem(a)
+        if r is None and a.kind == 'cmp' and a.args[0] == 'eq' and f.group_ref(_e(a.args[1])) and a.args[2][:1] in '\'"':
+            return f'free:{a!r}', False      # a capture group compared with a text: not part of the reference vocabulary, explored both ways
+        return r
+
+    def ref(v: T.Dict[str, T.Optional[bool]]) -> T.Any:
+        if v.get('plan seen'):
+            return {'events': ['Error'], 'plan': None, 'leaves by': 'return'}
+        skip = bool(v.get('directive') and v.get('SKIP directive'))
+        errs = int(bool(skip and v.get('count>=1'))) + int(bool(v.get('directive') and not v.get('SKIP directive')))
+        return {'events': ['Error'] * errs + ['Plan'], 'leaves by': 'return',
+                'plan': ('num_tests=int(count group)', 'late=(num_tests > 0)', 'skipped=True' if skip else 'skipped=(count == 0)', 'explanation=text group', 'yielded')}
+
+    def got(r: Row, v: T.Dict[str, T.Optional[bool]]) -> T.Any:
+        evs = _events(f, r)
+        p = r.final.get('self.plan')
+        desc: T.Any = None
+        if p is not None:
+            c = f.ctor(p)
+            if c is None or c[0] != 'Plan' or c[2]:
+                desc = 'self.plan := ' + short(p, 80)
+            else:
+                ops = c[1]
+                la, lv = canon(ops['late'], True)
+                sa_, sv = canon(ops['skipped'], True)
+                late = 'late=(num_tests > 0)' if (la == Atom('cmp', ('lt', '0', 'self.num_tests')) and lv) else 'late=' + short(ops['late'], 40)
+                if isinstance(ops['skipped'], ast.Constant) and ops['skipped'].value is True:
+                    sk = 'skipped=True'
+                elif sa_.kind == 'cmp' and sa_.args[0] == 'eq' and sa_.args[2] == '0' and _is_int_of(f, _e(sa_.args[1]), 'plan') and sv:
+                    sk = 'skipped=(count == 0)'
+                else:
+                    sk = 'skipped=' + short(ops['skipped'], 40)
+                yielded = any(n == 'Plan' and norm(e.value) == norm(p) for n, _, e in evs)
+                desc = ('num_tests=int(count group)' if _is_int_of(f, ops['num_tests'], 'plan') else 'num_tests=' + short(ops['num_tests'], 40), late, sk,
+                        'explanation=text group' if f.role_ref(ops['explanation'], 'plan', 'text') else 'explanation=' + short(ops['explanation'], 40),
+                        'yielded' if yielded else 'a different plan is yielded')
+        return {'events': _names(evs), 'plan': desc, 'leaves by': r.outcome[0]}
+    didx = next(i for i, r in f.forms['plan'][1].roles.items() if r == 'directive')
+    extra = [canon(_e('self.plan'), True)[0], canon(_e(f'self.{sec.regex}.match({s.line_def}).group({didx})'), True)[0]]
+    n, bad, _ = compare(tab, sem_or_free, ref, got, extra)
+    _split(m, tab, bad, {'events': 'C18.R2', 'plan': 'C18.R2', 'leaves by': 'C18.R2'}, n, {'C18.R2': 'events and the recorded plan (count, late, skipped, explanation)'})
+    _untouched(m, tab, {'state': 'C18.R1', 'num_tests': 'C18.R3', 'last_test': 'C18.R3', 'highest_test': 'C18.R3'})
+
+
+def _check_small(m: Model) -> None:
+    f, s = m.f, m.s
+    # Bail out!
+    tab = s.by_kind['bailout'].table
+    probs: T.List[str] = []
+    for r_ in tab.rows:
+        r = T.cast(Row, r_)
+        evs = _events(f, r)
+        if _names(evs) != ['Bailout'] or evs[0][1][2] or not f.role_ref(evs[0][1][1]['message'], 'bailout', 'text'):
+            probs.append(f'events {[short(e.value, 50) for _, _, e in evs]}; the reference row yields Bailout(<message group>)')
+        if _final(r, 'bailed_out') != 'True':
+            probs.append(f'bailed_out becomes {_final(r, "bailed_out")!r}; the reference row sets it (end of stream is silent after a bail-out)')
+        if r.outcome[0] != 'return':
+            probs.append(f'the row leaves by {r.outcome[0]}: the following line forms are consulted too')
+    for p in dict.fromkeys(probs):
+        m.diff('C18.R2', f'{tab.name}: {p.split(" ")[0]}', f'{tab.name}: {p}', s.by_kind['bailout'].node)
+    if not probs:
+        m.ok('C18.R2', f'{tab.name}: Bailout(<message group>), bailed_out := True, return on all {len(tab.rows)} rows')
+    _untouched(m, tab, {'state': 'C18.R1', 'num_tests': 'C18.R3', 'last_test': 'C18.R3', 'highest_test': 'C18.R3'})
+    # version
+    sec = s.by_kind['version']
+    tab = sec.table
+    cur_line = ('self.lineno', 'self.lineno + 1')
+    vidx = next(i for i, r in f.forms['version'][1].roles.items() if r == 'digits')
+
+    def sem(a: Atom) -> T.Optional[T.Tuple[str, bool]]:
+        if a.kind == 'cmp' and a.args[0] == 'eq' and a.args[1] in cur_line and a.args[2] == '1':
+            return 'first line', False
+        th = _thresh(a, lambda x: _is_int_of(f, _e(x), 'version'))
+        if th:
+            return f'version>={th[0]}', th[1]
+        th = _thresh(a, lambda x: x in cur_line)
+        if th:
+            return f'lineno>={th[0]}', th[1]
+        return None
+
+    def ref(v: T.Dict[str, T.Optional[bool]]) -> T.Any:
+        if not v.get('first line'):
+            return {'events': ['Error'], 'version': None, 'leaves by': 'return'}
+        return {'events': ['Version(version=int(group))'] if v.get('version>=13') else ['Error'], 'version': 'int(version group)', 'leaves by': 'return'}
+
+    def got(r: Row, v: T.Dict[str, T.Optional[bool]]) -> T.Any:
+        names = []
+        for n_, c, e in _events(f, r):
+            if n_ == 'Version' and not c[2] and _is_int_of(f, c[1]['version'], 'version'):
+                names.append('Version(version=int(group))')
+            else:
+                names.append(n_ if n_ != 'Version' else 'Version(' + short(e.value, 40) + ')')
+        fv = r.final.get('self.version')
+        return {'events': names, 'version': None if fv is None else ('int(version group)' if _is_int_of(f, fv, 'version') else short(fv, 50)), 'leaves by': r.outcome[0]}
+    extra = [canon(_e('self.lineno + 1 == 1'), True)[0], canon(_e(f'int(self.{sec.regex}.match({s.line_def}).group({vidx})) < 13'), True)[0]]
+    n, bad, _ = compare(tab, sem, ref, got, extra)
+    _split(m, tab, bad, {'events': 'C18.R2', 'version': 'C18.R1', 'leaves by': 'C18.R2'}, n,
+           {'C18.R1': 'the recorded version (gates YAML)', 'C18.R2': 'events (only on line 1, only >= 13)'})
+    _untouched(m, tab, {'state': 'C18.R1', 'num_tests': 'C18.R3', 'last_test': 'C18.R3', 'highest_test': 'C18.R3'})
+    # unknown line
+    tab = s.post
+    probs = []
+    for r_ in tab.rows:
+        r = T.cast(Row, r_)
+        evs = _events(f, r)
+        okk = _names(evs) == ['UnknownLine'] and not evs[0][1][2] and norm(evs[0][1][1]['message']) == s.line_def and norm(evs[0][1][1]['lineno']) in cur_line
+        if not okk:
+            probs.append(f'events {[short(e.value, 60) for _, _, e in evs]}; the reference row yields UnknownLine(<stripped line>, lineno)')
+        if r.final:
+            probs.append(f'fields written: {sorted(r.final)}')
+    for p in dict.fromkeys(probs):
+        m.diff('C18.R2', f'{tab.name}: {p.split(" ")[0]}', f'{tab.name}: {p}', tab.rows[0].path.events[0].node if tab.rows and tab.rows[0].path.events else None)
+    if not probs:
+        m.ok('C18.R2', f'{tab.name}: UnknownLine(<stripped line>, lineno) and nothing else')
+
+
+# ----------------------------------------------------------------------------------------------
+# end of stream, parse_test
+# ----------------------------------------------------------------------------------------------
+def _check_eof(m: Model) -> None:
+    f, s = m.f, m.s
+    tab = s.eof
+    pairs = {('self.num_tests', 'self.plan.num_tests'): ('count', 'plan'), ('self.highest_test', 'self.num_tests'): ('highest', 'count')}
+
+    def sem(a: Atom) -> T.Optional[T.Tuple[str, bool]]:
+        st = _state_atom(f, a)
+        if st:
+            return 'state' + st, False
+        if a.kind == 'cmp':
+            for (x, y), (nx, ny) in pairs.items():
+                if {a.args[1], a.args[2]} == {x, y}:
+                    if a.args[0] == 'eq':
+                        return f'{nx}=={ny}', False
+                    return (f'{nx}<{ny}', False) if a.args[1] == x else (f'{nx}>{ny}', False)
+            return None
+        t = _truthy(a)
+        if t is not None and norm(t[0]) in ('self.bailed_out', 'self.plan'):
+            return {'self.bailed_out': 'bailed out', 'self.plan': 'plan'}[norm(t[0])], t[1]
+        return None
+
+    def ref(v: T.Dict[str, T.Optional[bool]]) -> T.Any:
+        errs = int(bool(v.get('state_YAML')))
+        if not v.get('bailed out'):
+            if v.get('plan') and not v.get('count==plan'):
+                errs += 1
+            elif not v.get('highest==count'):
+                errs += 1
+        return {'events': ['Error'] * errs, 'fields written': []}
+
+    def got(r: Row, v: T.Dict[str, T.Optional[bool]]) -> T.Any:
+        return {'events': _names(_events(f, r)), 'fields written': sorted(r.final)}
+    extra = [canon(_e(t), True)[0] for t in ('self.state == self._YAML', 'self.bailed_out', 'self.plan', 'self.num_tests == self.plan.num_tests',
+                                             'self.highest_test == self.num_tests')]
+    n, bad, _ = compare(tab, sem, ref, got, extra)
+    _split(m, tab, bad, {'events': 'C18.R2', 'fields written': 'C18.R2'}, n,
+           {'C18.R2': 'errors (open YAML block; silent after bail-out; plan/count mismatch; duplicate/missing numbers)'})
+
+
+def _check_parse_test(m: Model) -> None:
+    f = m.f
+    fn = f.parse_test
+    qn = f'{PARSER}.parse_test'
+    if len(param_names(fn)) != 5:
+        raise Undecided(f'{qn}: expected (ok, num, name, directive, explanation)')
+    tab, _ = build(fn, fn.body, 'parse_test')
+    ups = {'ARG4.upper()': ('SKIP', "'TODO'"), 'ARG4.lower()': ('skip', "'todo'"), 'ARG4.casefold()': ('skip', "'todo'")}
+
+    def word(recv: str, const: T.Any, prefix: bool, node_text: str) -> T.Optional[str]:
+        """Which directive word a test on the directive parameter denotes; structural deviations from the reference
+        vocabulary (case-sensitive test, TODO as a prefix, SKIP as equality) are reported."""
+        if not isinstance(const, str) or 'ARG4' not in recv:
+            return None
+        w = {'SKIP': 'SKIP*', 'TODO': 'TODO'}.get(const.upper())
+        if w is None:
+            return None
+        want_case = {'upper': const.isupper(), 'lower': const.islower(), 'casefold': const.islower()}
+        norms = [k for k in want_case if recv.endswith(f'.{k}()') or f'.{k}().' in recv]
+        if not norms or not all(want_case[k] for k in norms):
+            m.diff('C18.R2', 'parse_test: directive case', f'parse_test tests `{node_text}`: the directive is not case-normalised to match {const!r} '
+                   f'(TAP directives are case-insensitive)', fn, qn)
+        if (w == 'TODO') == prefix:
+            m.diff('C18.R2', f'parse_test: {w} test', f'parse_test tests `{node_text}`: the reference vocabulary is SKIP as a prefix (SKIP, SKIPPED, ...) and '
+                   f'TODO as the whole word', fn, qn)
+        return w
+
+    def sem(a: Atom) -> T.Optional[T.Tuple[str, bool]]:
+        if a.kind == 'cmp' and a.args[0] == 'eq':
+            c = ast.literal_eval(a.args[2]) if a.args[2][:1] in '\'"' else None
+            w = word(a.args[1], c, False, repr(a))
+            if w:
+                return w, False
+        t = _truthy(a)
+        if t is None:
+            return None
+        x, flip = t
+        if norm(x) == 'ARG4':
+            return 'directive', flip
+        if norm(x) == 'ARG1':
+            return 'ok', flip
+        if isinstance(x, ast.Call) and isinstance(x.func, ast.Attribute) and x.func.attr == 'startswith' and len(x.args) == 1 \
+                and isinstance(x.args[0], ast.Constant):
+            w = word(norm(x.func.value), x.args[0].value, True, repr(a))
+            if w:
+                return w, flip
+        return None
+
+    def ref(v: T.Dict[str, T.Optional[bool]]) -> T.Any:
+        ok = bool(v.get('ok'))
+        plain = 'Test OK' if ok else 'Test FAIL'
+        if not v.get('directive'):
+            return {'events': [plain]}
+        if v.get('SKIP*'):
+            return {'events': ['Test SKIP' if ok else 'Test FAIL']}
+        if v.get('TODO'):
+            return {'events': ['Test UNEXPECTEDPASS' if ok else 'Test EXPECTEDFAIL']}
+        return {'events': ['Error', plain]}
+
+    def result(e: ast.AST, v: T.Dict[str, T.Optional[bool]]) -> str:
+        if isinstance(e, ast.IfExp):
+            a, val = canon(e.test, True)
+            if a == Atom('truth', ('ARG1',)) and v.get('ok') is not None:
+                return result(e.body if bool(v.get('ok')) == val else e.orelse, v)
+        c = attr_chain(e) or ''
+        return c.split('.')[-1] if c.startswith('TestResult.') else '?' + short(e, 40)
+
+    def explained(e: ast.AST) -> bool:
+        if not isinstance(e, ast.IfExp):
+            return False
+        a, val = canon(e.test, True)
+        if a != Atom('truth', ('ARG5',)):
+            return False
+        setb, noneb = (e.body, e.orelse) if val else (e.orelse, e.body)
+        return norm(setb) == 'ARG5.strip()' and norm(noneb) == 'None'
+
+    def got(r: Row, v: T.Dict[str, T.Optional[bool]]) -> T.Any:
+        out = []
+        for n_, c, e in _events(f, r):
+            if n_ == 'Test' and not c[2]:
+                ops = c[1]
+                okops = norm(ops['number']) == 'ARG2' and norm(ops['name']) == 'ARG3.strip()' and explained(ops['explanation'])
+                out.append('Test ' + result(ops['result'], v) + ('' if okops else f' with operands {short(e.value, 90)}'))
+            else:
+                out.append(n_)
+        return {'events': out}
+    n, bad, _ = compare(tab, sem, ref, got, [canon(_e(t), True)[0] for t in ('ARG1', 'ARG4 is None', "ARG4.upper().startswith('SKIP')", "ARG4.upper() == 'TODO'")],
+                        consistent=lambda v: not (v.get('SKIP*') and v.get('TODO')))
+    hit = False
+    for row, g, want, view in bad:
+        hit = True
+        vw = ', '.join(f'{"" if x else "not "}{k}' for k, x in view.items() if x is not None)
+        m.diff('C18.R2', f'parse_test row [{vw}]', f'parse_test, row [{vw}]: yields {g["events"]}; the reference row (A.17) yields {want["events"]} '
+               f'(Test(num, name.strip(), result, explanation.strip() or None))', row.items[-1].raw if row.items else None, qn)
+    if not hit:
+        m.ok('C18.R2', f'parse_test: the seven reference rows (directive none/SKIP*/TODO/other x ok) agree on {n} worlds ({len(tab.rows)} rows), operands by role')
 
 
 # ----------------------------------------------------------------------------------------------
 # R1 state machine
 # ----------------------------------------------------------------------------------------------
+def _state_flow(f: Facts) -> T.Tuple[CFG, T.Dict[int, T.FrozenSet[int]]]:
+    """Constant propagation of self.state over {_MAIN, _AFTER_TEST, _YAML} on the CFG of parse_line, refined on the
+    true/false edges of `self.state ==/!= <constant>` tests.  Returns the set of possible states on entry of every node."""
+    fn = f.parse_line
+    cfg = CFG(fn)
+    allv = frozenset(f.states.values())
+
+    def const_of(e: ast.AST) -> T.Optional[int]:
+        n = f.state_of(attr_chain(e) or '')
+        return f.states[n] if n else None
+
+    def state_test(t: ast.AST) -> T.Optional[T.Tuple[int, bool]]:
+        if isinstance(t, ast.Compare) and len(t.ops) == 1 and isinstance(t.ops[0], (ast.Eq, ast.NotEq, ast.Is, ast.IsNot)):
+            l, r = t.left, t.comparators[0]
+            for x, y in ((l, r), (r, l)):
+                if attr_chain(x) == 'self.state' and const_of(y) is not None:
+                    return T.cast(int, const_of(y)), isinstance(t.ops[0], (ast.Eq, ast.Is))
+        return None
+
+    def writes_state(st: ast.AST) -> T.Optional[ast.AST]:
+        if isinstance(st, ast.Assign):
+            for t in st.targets:
+                for n in ast.walk(t):
+                    if isinstance(n, ast.Attribute) and attr_chain(n) == 'self.state':
+                        return st.value if len(st.targets) == 1 and t is n else ast.Constant(value='?')
+        if isinstance(st, (ast.AugAssign, ast.AnnAssign)) and attr_chain(st.target) == 'self.state':
+            return ast.Constant(value='?')
+        return None
+    IN: T.Dict[int, T.FrozenSet[int]] = {cfg.entry.id: allv}
+    work = [cfg.entry.id]
+    while work:
+        nid = work.pop()
+        node = cfg.nodes[nid]
+        s_in = IN[nid]
+        for succ, label in cfg.succ[nid]:
+            out = s_in
+            if label != 'exc':
+                if node.kind == 'stmt' and node.ast is not None:
+                    w = writes_state(node.ast)
+                    if w is not None:
+                        c = const_of(w)
+                        if c is None:
+                            raise Undecided(f'parse_line: self.state is assigned `{short(w)}`, not one of the three state constants')
+                        out = frozenset([c])
+                    elif isinstance(node.ast, ast.Assert):
+                        t = state_test(node.ast.test)
+                        if t is not None:
+                            out = (s_in & {t[0]}) if t[1] else (s_in - {t[0]})
+                elif node.kind == 'test' and label in (True, False):
+                    t = state_test(node.ast.test)   # type: ignore[union-attr]
+                    if t is not None:
+                        eq = t[1] == label
+                        out = (s_in & {t[0]}) if eq else (s_in - {t[0]})
+            new = IN.get(succ, frozenset()) | out
+            if succ not in IN or new != IN[succ]:
+                IN[succ] = new
+                work.append(succ)
+    return cfg, IN
+
+
 def r1(ctx: RuleCtx) -> None:
-    m = model(ctx)
-    f = m.facts
+    f = facts(ctx)
     mod = f.mod
-    # domain: three distinct constants, the initial state is _MAIN
-    ctx.require(len({f.MAIN, f.AFTER, f.YAML}) == 3, 'the three state constants are distinct', mod, PARSER, '_MAIN/_AFTER_TEST/_YAML',
-                f'state constants collide: _MAIN={f.MAIN} _AFTER_TEST={f.AFTER} _YAML={f.YAML}')
-    init = f.static.class_attr(PARSER, 'state')
-    ctx.require(init == f.MAIN, 'a new parser starts in _MAIN', mod, PARSER, 'state', f'class default of state is {init!r}, not _MAIN')
-    v0 = f.static.class_attr(PARSER, 'version')
+    names = {v: k for k, v in f.states.items()}
+    ctx.require(len(names) == 3, 'the three state constants are distinct', mod, PARSER, '_MAIN/_AFTER_TEST/_YAML', f'state constants collide: {f.states}')
+    init = f.fold('state')
+    ctx.require(init == f.states['_MAIN'], 'a new parser starts in _MAIN', mod, PARSER, 'state', f'class default of state is {init!r}, not _MAIN')
+    v0 = f.fold('version')
     ctx.require(isinstance(v0, int) and v0 < 13, 'a new parser assumes TAP 12 (no YAML) until a version line', mod, PARSER, 'version',
                 f'class default of version is {v0!r}')
-    # who writes the parser fields: only the step function (and helpers it calls, which are inlined).  A write elsewhere
-    # is invisible to the transition table: the analysis cannot tell (undecided), it is not by itself a defect.
-    reach = _self_callees(f, 'parse_line')
-    fields = set(STATE_FIELDS + EVENT_FIELDS + COUNTER_FIELDS)
+    # who writes the parser fields: only the step function (a write elsewhere is invisible to the tables: cannot tell)
     writers = []
     for name, fn in mod.methods(PARSER).items():
         for n in walk_no_nested(fn):
-            if isinstance(n, ast.Attribute) and isinstance(n.ctx, ast.Store) and n.attr in fields and attr_chain(n.value) == 'self':
+            if isinstance(n, ast.Attribute) and isinstance(n.ctx, ast.Store) and n.attr in FIELDS and attr_chain(n.value) == 'self':
                 writers.append((name, n))
-    outside = sorted({f'{name} writes self.{n.attr}' for name, n in writers if name not in reach})
+    outside = sorted({f'{name} writes self.{n.attr}' for name, n in writers if name != 'parse_line'})
     if outside:
-        raise Undecided(f'parser fields are written outside parse_line and the helpers it calls: {"; ".join(outside)}')
+        raise Undecided(f'parser fields are written outside parse_line: {"; ".join(outside)}')
     nstate = sum(1 for _, n in writers if n.attr == 'state')
     ctx.floor('writes of self.state', nstate, 4)
-    ctx.ok(f'all {len(writers)} writes of the parser fields ({nstate} of self.state) are in {sorted(reach)}: the step table describes every transition')
-    # transitions
-    runs = [(w, r) for w, r in m.line_runs]
-    ctx.floor('abstract worlds of parse_line', len(runs), 1200)
-
-    def grp(r: LineRun) -> str:
-        return f'state {f.state_name.get(r.state0, "any")}, {r.label}'
-    _report(ctx, mod, f'{PARSER}.parse_line', runs, ('state', 'raise'), grp, 'next state / YAML bookkeeping / state assertion',
-            only_exc=lambda e: e == 'AssertionError')
-    asserts = [n for n in walk_no_nested(f.parse_line) if isinstance(n, ast.Assert)]
-    for a in asserts:
-        hits = f.static.hits.get(id(a), 0)
-        if hits == 0:
-            raise Undecided(f'assert `{short(a.test)}` is never reached in the abstraction')
-        ctx.note(f'`{short(a)}` evaluated in {hits} abstract runs')
-    m.require_covered()
-    ctx.note(f'all {m.atoms_parse_line} condition events on the engine paths of parse_line are exercised by some world; {f.static.runs} abstract runs in total')   # type: ignore[attr-defined]
-
-
-def _self_callees(f: Facts, root: str) -> T.Set[str]:
-    meths = f.mod.methods(PARSER)
-    seen = {root}
-    todo = [root]
-    while todo:
-        fn = meths.get(todo.pop())
-        if fn is None:
+    ctx.ok(f'all {len(writers)} writes of the parser fields ({nstate} of self.state) are in parse_line: its tables describe every transition')
+    # constant propagation of state on the CFG
+    cfg, IN = _state_flow(f)
+    reach = cfg.reachable([cfg.entry])
+    n_assert = n_yaml = 0
+    for node in cfg.nodes:
+        if node.id not in reach or node.kind != 'stmt' or node.ast is None:
             continue
-        for n in walk_no_nested(fn):
-            if isinstance(n, ast.Call) and isinstance(n.func, ast.Attribute) and attr_chain(n.func.value) == 'self' \
-                    and n.func.attr in meths and n.func.attr not in seen and n.func.attr not in LineDom.opaque_methods:
-                seen.add(n.func.attr)
-                todo.append(n.func.attr)
-    return seen
+        st = node.ast
+        s_in = IN.get(node.id, frozenset())
+        if isinstance(st, ast.Assert):
+            t = st.test
+            if isinstance(t, ast.Compare) and len(t.ops) == 1 and isinstance(t.ops[0], ast.Eq) and 'self.state' in (attr_chain(t.left), attr_chain(t.comparators[0])):
+                other = t.comparators[0] if attr_chain(t.left) == 'self.state' else t.left
+                k = f.state_of(attr_chain(other) or '')
+                if k is None:
+                    raise Undecided(f'assertion `{short(st)}` compares state with an unknown constant')
+                n_assert += 1
+                badv = sorted(names[x] for x in s_in if x != f.states[k])
+                ctx.require(not badv, f'`{short(st)}` holds: the states reaching it are {sorted(names[x] for x in s_in)} ({len(cfg.nodes)} CFG nodes)', mod,
+                            f'{PARSER}.parse_line', st, f'`{short(st)}` can be reached in state {badv}: AssertionError escapes the parser', st)
+            else:
+                raise Undecided(f'assertion `{short(st)}` is not about the state')
+        elif isinstance(st, ast.Assign) and any(attr_chain(t) == 'self.state' for t in st.targets) and f.state_of(attr_chain(st.value) or '') == '_YAML':
+            n_yaml += 1
+            badv = sorted(names[x] for x in s_in if x != f.states['_AFTER_TEST'])
+            ctx.require(not badv, 'a YAML block is entered only from AFTER_TEST (states reaching the assignment: '
+                        f'{sorted(names[x] for x in s_in)})', mod, f'{PARSER}.parse_line', st,
+                        f'state := _YAML is reachable from state {badv}: YAML blocks are only accepted directly after a test line', st)
+    ctx.floor('state assertions', n_assert, 1)
+    ctx.floor('YAML entries', n_yaml, 1)
+    m = model(ctx)
+    m.emit(ctx, 'C18.R1')
 
 
 # ----------------------------------------------------------------------------------------------
-# R2 events
+# R2 events, R3 counters
 # ----------------------------------------------------------------------------------------------
-DIRECTIVES = [None, 'SKIP', 'skip', 'Skipped', 'TODO', 'todo', 'ToDo', 'FIXME', 'TODOS', 'SKI', '']
-EXPLANATIONS = [None, '', ' why ']
-
-
-class TestDom(Hooks):
-    def __init__(self, w: World):
-        self.w = w
-
-
-class TestRunRow(T.NamedTuple):
-    label: str
-    res: Result
-    diffs: T.List[Diff]
-
-
-def _ref_test(ok: bool, num: int, name: str, directive: T.Optional[str], explanation: T.Optional[str]) -> T.Tuple[str, T.List[T.Any]]:
-    """A.17: (directive, ok) -> events."""
-    expl = explanation.strip() if explanation else None
-    nm = name.strip()
-
-    def test(res: str) -> T.Any:
-        return ('Test', num, nm, EnumVal('TestResult', res), expl)
-    plain = test('OK' if ok else 'FAIL')
-    if directive is None:
-        return 'no directive', [plain]
-    d = directive.upper()
-    if d.startswith('SKIP'):
-        return 'SKIP directive', [test('SKIP') if ok else test('FAIL')]
-    if d == 'TODO':
-        return 'TODO directive', [test('UNEXPECTEDPASS' if ok else 'EXPECTEDFAIL')]
-    return 'other directive', [ERR, plain]
-
-
-def _explore_parse_test(f: Facts) -> T.List[T.Tuple[World, TestRunRow]]:
-    fn = f.parse_test
-    ps = params_of(fn)
-    if len(ps) != 5:
-        raise Undecided(f'parse_test: expected (ok, num, name, directive, explanation), found {ps}')
-    out: T.List[T.Tuple[World, TestRunRow]] = []
-    for ok in (True, False):
-        for dv in DIRECTIVES:
-            for ex in EXPLANATIONS:
-                vals: T.List[T.Any] = [ok, 7, ' name ', dv, ex]
-                w = World({('param', p): v for p, v in zip(ps, vals)})
-                d = TestDom(w)
-                it = Interp(f.static, w, d)
-                res = it.run(fn.body, PARSER, dict(zip(ps, vals)))
-                label, want = _ref_test(*vals)   # type: ignore[arg-type]
-                diffs: T.List[Diff] = []
-                if res.raised is not None:
-                    diffs.append(Diff('raise', res.raised.exc, str(res.raised)))
-                else:
-                    got = [_nf(_ConcOnly(), e) for e in res.events]
-                    if got != want:
-                        diffs.append(Diff('events', 'subtest row', f'events {got}; the reference row gives {want}'))
-                out.append((w, TestRunRow(f'{label}, {"ok" if ok else "not ok"}', res, diffs)))
-    return out
-
-
-class _ConcOnly:
-    def conc(self, v: T.Any) -> T.Any:
-        return v
-
-
 def r2(ctx: RuleCtx) -> None:
     f = facts(ctx)
     mod = f.mod
-    # K11: the six line forms, their group roles, pairwise disjoint prefix languages
     for name, kind in FORM_OF.items():
         if kind in f.forms:
             form = f.forms[kind][1]
@@ -618,32 +1097,47 @@ def r2(ctx: RuleCtx) -> None:
         if cat == 'sample':
             ctx.violation(mod, PARSER, f'{name}: {txt}', f'the pattern {name} = {f.regexes[name].pattern!r} {txt} (TAP specification sample)',
                           mod.assign_value(name, f.cls))
-    m = model(ctx)
+    f.require_forms()
     ctx.floor('regex constants denoting a TAP line form', len(f.forms), 6)
-    main = ['test', 'plan', 'bailout', 'version']
-    for i, a in enumerate(main):
-        for b in main[i + 1:]:
+    for i, a in enumerate(MAIN_KINDS):
+        for b in MAIN_KINDS[i + 1:]:
             pa, pb = f.regexes[f.forms[a][0]], f.regexes[f.forms[b][0]]
             wit = rx.intersects(pa.pattern + r'[\s\S]*', pb.pattern + r'[\s\S]*', pa.flags, pb.flags)
             if wit is not None:
-                raise Undecided(f'a line can be both a {a} and a {b} line (e.g. {wit!r}): the line-form abstraction is not a partition')
-            ctx.ok(f'no line is both a {a} line and a {b} line (prefix languages disjoint)')
-    # event lists per line form
-    _report(ctx, mod, f'{PARSER}.parse_line', m.line_runs, ('events', 'flags'), lambda r: r.label, 'events, plan and flags')
-    # parse_test: the seven rows
-    ctx.floor('abstract worlds of parse_test', len(m.test_runs), 66)
-    _report(ctx, mod, f'{PARSER}.parse_test', m.test_runs, ('events',), lambda r: r.label, 'subtest events')
-    # drivers
+                raise Undecided(f'a line can be both a {a} and a {b} line (e.g. {wit!r}): the line-form atoms are not exclusive')
+            ctx.ok(f'no line is both a {a} line and a {b} line (prefix languages disjoint): the order of the sections is immaterial')
+    m = model(ctx)
+    if not m.pt_checked:
+        m.pt_checked = True
+        _check_parse_test(m)
+    for kind in MAIN_KINDS:
+        tab = m.s.by_kind[kind].table
+        nr = [r for r in tab.rows if r.outcome[0] != 'return']
+        ctx.require(not nr, f'{tab.name}: all {len(tab.rows)} rows return (no line is handled by two sections)', mod, f'{PARSER}.parse_line',
+                    f'{tab.name}: falls through', f'{len(nr)} rows of {tab.name} fall through to the following line forms', m.s.by_kind[kind].node)
+    m.emit(ctx, 'C18.R2')
     for q in ('parse', 'parse_async'):
         _driver(ctx, mod, q)
-    m.require_covered()
+
+
+def r3(ctx: RuleCtx) -> None:
+    m = model(ctx)
+    m.emit(ctx, 'C18.R3')
+    ctx.floor('rows of the test-line table', len(m.s.by_kind['test'].table.rows), 7)
+    for tab in (m.s.by_kind['plan'].table, m.s.by_kind['bailout'].table, m.s.by_kind['version'].table, m.s.post, m.s.eof):
+        if not any(d.rule == 'C18.R3' and d.construct.startswith(tab.name) for d in m.diffs):
+            ctx.ok(f'{tab.name}: num_tests / last_test / highest_test are not written ({len(tab.rows)} rows)')
+
+
+def _params(fn: T.Any) -> T.List[str]:
+    return list(param_names(fn))
 
 
 def _driver(ctx: RuleCtx, mod: Module, q: str) -> None:
     """parse / parse_async: every line goes to parse_line in order, then exactly one parse_line(None); all events forwarded."""
     qn = f'{PARSER}.{q}'
     fn = mod.func(qn)
-    ps = params_of(fn)
+    ps = _params(fn)
     loops = [s for s in fn.body if isinstance(s, (ast.For, ast.AsyncFor))]
     outer = [l for l in loops if ps and ps[0] in {n.id for n in ast.walk(l.iter) if isinstance(n, ast.Name)}]
     if len(outer) != 1 or not isinstance(outer[0].target, ast.Name):
@@ -661,6 +1155,7 @@ def _driver(ctx: RuleCtx, mod: Module, q: str) -> None:
             b = par.body[0]
             return isinstance(b, ast.Expr) and isinstance(b.value, ast.Yield) and isinstance(b.value.value, ast.Name) and b.value.value.id == par.target.id
         return False
+
     def call_seq(p: T.Any) -> T.List[ast.Call]:
         """parse_line calls along the path; the iterator expression of a loop is evaluated once per loop execution."""
         out: T.List[ast.Call] = []
@@ -679,13 +1174,11 @@ def _driver(ctx: RuleCtx, mod: Module, q: str) -> None:
             elif e.kind in ('stmt', 'cond'):
                 out.extend(c for c in walk_no_nested(e.node) if isinstance(c, ast.Call))
         return [c for c in out if call_name(c) == 'self.parse_line']
-    paths = enumerate_paths(fn.body, unroll=2)
     n = 0
-    for p in paths:
-        calls = call_seq(p)
+    for p in enumerate_paths(fn.body, unroll=2):
         n += 1
         seq = []
-        for c in calls:
+        for c in call_seq(p):
             a = c.args[0] if len(c.args) == 1 and not c.keywords else None
             if isinstance(a, ast.Constant) and a.value is None:
                 seq.append('EOF')
@@ -696,109 +1189,10 @@ def _driver(ctx: RuleCtx, mod: Module, q: str) -> None:
             if not forwarded(c):
                 ctx.violation(mod, qn, c, f'the events of `{short(c)}` are not yielded to the caller', c)
         iters = sum(1 for e in p.events if e.kind == 'iter' and e.node is loop and e.val == 'iter')
-        ok = p.outcome in ('fall', 'return') and seq == ['line'] * iters + ['EOF']
-        if not ok:
+        if not (p.outcome in ('fall', 'return') and seq == ['line'] * iters + ['EOF']):
             ctx.violation(mod, qn, f'path with {iters} line(s)', f'for {iters} input line(s) the calls are {seq} (leaving by {p.outcome}); '
                           f'expected {["line"] * iters + ["EOF"]}', fn)
     ctx.ok(f'{qn}: {n} paths: each line is passed to parse_line in order, then exactly one parse_line(None), all events yielded')
-
-
-# ----------------------------------------------------------------------------------------------
-# R3 counters
-# ----------------------------------------------------------------------------------------------
-def r3(ctx: RuleCtx) -> None:
-    m = model(ctx)
-    f = m.facts
-    _report(ctx, f.mod, f'{PARSER}.parse_line', m.line_runs, ('counters', 'exceeds'), lambda r: r.label,
-            'num_tests / last_test / highest_test / lineno and the beyond-plan comparison')
-    tests = sum(1 for w, r in m.line_runs if r.label == 'test line')
-    ctx.floor('abstract worlds with a test line', tests, 600)
-    m.require_covered()
-
-
-# ----------------------------------------------------------------------------------------------
-# R4 no exception escapes
-# ----------------------------------------------------------------------------------------------
-def r4(ctx: RuleCtx) -> None:
-    m = model(ctx)
-    f = m.facts
-    mod = f.mod
-    pm = mod.parent_map()
-
-    def stmt_of(n: ast.AST) -> ast.AST:
-        while n in pm and not isinstance(n, ast.stmt):
-            n = pm[n]
-        return n
-    raised: T.Dict[int, T.List[T.Tuple[World, Raises]]] = {}
-    escapes: T.List[T.Tuple[str, World, Raises]] = []
-    for qn, runs in ((f'{PARSER}.parse_line', m.line_runs), (f'{PARSER}.parse_test', m.test_runs)):
-        for w, r in runs:
-            if r.res.raised is not None:
-                escapes.append((qn, w, r.res.raised))
-                if r.res.raised.node is not None:
-                    raised.setdefault(id(r.res.raised.node), []).append((w, r.res.raised))
-    # inventory of partial operations
-    n_int = n_assert = n_group = 0
-    site_ids: T.Set[int] = set()
-    for qn, fn in ((f'{PARSER}.parse_line', f.parse_line), (f'{PARSER}.parse_test', f.parse_test)):
-        for n in _body_nodes(fn):
-            kind = None
-            if isinstance(n, ast.Call) and isinstance(n.func, ast.Name) and n.func.id == 'int':
-                kind, n_int = 'int()', n_int + 1
-            elif isinstance(n, ast.Assert):
-                kind, n_assert = 'assert', n_assert + 1
-            elif isinstance(n, ast.Call) and isinstance(n.func, ast.Attribute) and n.func.attr == 'group':
-                kind, n_group = 'group()', n_group + 1
-            elif isinstance(n, ast.Subscript) and isinstance(n.ctx, ast.Load):
-                kind = 'subscript'
-            if kind is None:
-                continue
-            site_ids.add(id(n))
-            hits = f.static.hits.get(id(n), 0)
-            bad = raised.get(id(n), [])
-            if bad:
-                w, r = bad[0]
-                ctx.violation(mod, qn, f'int() of the {r.origin}' if r.origin else stmt_of(n),
-                              f'{kind} `{short(n, 60)}` raises {r.exc} ({r.msg}) and nothing catches it - in {len(bad)} of {hits} '
-                              f'abstract runs, e.g. [{w.describe()}]' + _int_fact(f, n), n)
-            elif hits == 0:
-                if kind == 'subscript':
-                    raise Undecided(f'{qn}: subscript `{short(n)}` is outside the abstraction')
-                raise Undecided(f'{qn}: {kind} `{short(n)}` is never evaluated in the abstraction')
-            else:
-                ctx.ok(f'{qn}: {kind} `{short(n, 50)}` evaluated in {hits} abstract runs, never raises past the function' + _int_fact(f, n))
-    ctx.floor('int() sites', n_int, 3)
-    ctx.floor('assert sites', n_assert, 1)
-    ctx.floor('match.group() sites', n_group, 10)
-    # anything else that escapes (None dereference, constructor arity, ...)
-    other: T.Dict[str, T.List[T.Tuple[str, World, Raises]]] = {}
-    for qn, w, r in escapes:
-        if r.node is not None and id(r.node) in site_ids:
-            continue
-        other.setdefault(f'{qn}|{norm(stmt_of(r.node)) if r.node is not None else r.exc}', []).append((qn, w, r))
-    for key, lst in other.items():
-        qn, w, r = lst[0]
-        ctx.violation(mod, qn, stmt_of(r.node) if r.node is not None else r.exc, f'{r.exc} ({r.msg}) escapes in {len(lst)} abstract runs, '
-                      f'e.g. [{w.describe()}]', r.node)
-    if not other:
-        ctx.ok(f'no other exception (None dereference, arity, type error) in {len(m.line_runs) + len(m.test_runs)} abstract runs')
-    # no explicit raise is reachable; the drivers contain no partial operation of their own
-    for q in ('parse_line', 'parse_test', 'parse', 'parse_async'):
-        fn = mod.func(f'{PARSER}.{q}')
-        cfg = CFG(fn)
-        reach = cfg.reachable([cfg.entry])
-        rs = [n for n in cfg.nodes if n.kind == 'stmt' and isinstance(n.ast, ast.Raise) and n.id in reach and cfg.can_reach(n, cfg.exit_raise)]
-        for n in rs:
-            ctx.violation(mod, f'{PARSER}.{q}', n.ast, f'`{short(n.ast)}` is reachable and leaves {q}', n.ast)
-        if not rs:
-            ctx.ok(f'{PARSER}.{q}: no reachable raise statement leaves the function ({len(cfg.nodes)} CFG nodes)')
-    for q in ('parse', 'parse_async'):
-        fn = mod.func(f'{PARSER}.{q}')
-        partial = [n for n in _body_nodes(fn) if isinstance(n, (ast.Subscript, ast.Assert))
-                   or (isinstance(n, ast.Call) and call_name(n) not in ('self.parse_line',))]
-        ctx.require(not partial, f'{PARSER}.{q}: only iterates its input and calls parse_line', mod, f'{PARSER}.{q}', fn,
-                    f'{q} contains operations of its own that can raise: {[short(x, 40) for x in partial]}')
-    m.require_covered()
 
 
 def _body_nodes(fn: T.Any) -> T.Iterator[ast.AST]:
@@ -818,21 +1212,211 @@ def _body_nodes(fn: T.Any) -> T.Iterator[ast.AST]:
                 stack.extend(x for x in reversed(val) if isinstance(x, ast.AST))
 
 
-def _int_fact(f: Facts, call: ast.AST) -> str:
-    """Which capture group feeds an int() call, and whether its digit run is bounded (regex-structure fact)."""
-    if not (isinstance(call, ast.Call) and isinstance(call.func, ast.Name) and call.func.id == 'int' and call.args):
-        return ''
-    a = call.args[0]
-    if isinstance(a, ast.Call) and isinstance(a.func, ast.Attribute) and a.func.attr == 'group' and a.args and isinstance(a.args[0], ast.Constant):
-        n = a.args[0].value
-        facts = []
-        for kind, (name, form) in f.forms.items():
-            if form.roles.get(n) == 'digits':
-                lo, hi = form.bounds[n]
-                facts.append(f'{name} group {n} = {lo}..{"unbounded" if hi is None else hi} digits')
-        if facts:
-            return ' [' + '; '.join(facts) + ']'
-    return ''
+# ----------------------------------------------------------------------------------------------
+# R4 no exception escapes
+# ----------------------------------------------------------------------------------------------
+_EXC_PARENTS = {'ValueError': 'Exception', 'TypeError': 'Exception', 'AttributeError': 'Exception', 'IndexError': 'LookupError',
+                'LookupError': 'Exception', 'Exception': 'BaseException'}
+
+
+def _catches(handler: ast.ExceptHandler, exc: str) -> T.Optional[bool]:
+    if handler.type is None:
+        return True
+    names = []
+    for t in (handler.type.elts if isinstance(handler.type, ast.Tuple) else [handler.type]):
+        n = attr_chain(t)
+        if n is None:
+            return None
+        names.append(n.split('.')[-1])
+    cur: T.Optional[str] = exc
+    while cur:
+        if cur in names:
+            return True
+        cur = _EXC_PARENTS.get(cur)
+    return False
+
+
+def _guarded_by_handler(cfg: CFG, site: ast.AST, exc: str) -> bool:
+    """Every CFG node evaluating `site` has an exception edge, and all its exception edges lead to handlers catching `exc`."""
+    nodes = cfg.node_containing(site)
+    if not nodes:
+        raise Undecided(f'`{short(site)}` is not on the CFG')
+    for n in nodes:
+        exc_succ = [cfg.nodes[b] for b, lab in cfg.succ[n.id] if lab == 'exc']
+        if not exc_succ:
+            return False
+        ok = False
+        for h in exc_succ:
+            if h.kind != 'handler':
+                continue
+            c = _catches(T.cast(ast.ExceptHandler, h.ast), exc)
+            if c is None:
+                raise Undecided(f'cannot tell whether `except {short(h.ast.type)}` catches {exc}')   # type: ignore[union-attr]
+            ok = ok or c
+        if not ok:
+            return False
+    return True
+
+
+def _unguarded(e: ast.AST, known: T.Dict[str, bool], optional: T.Callable[[ast.AST], bool]) -> T.List[T.Tuple[str, ast.AST]]:
+    """Dereferences (`X.attr`, `int(X)`) of an optional X that no condition known at that point shows to be set."""
+    out: T.List[T.Tuple[str, ast.AST]] = []
+
+    def learn(t: ast.AST, val: bool, k: T.Dict[str, bool]) -> T.Dict[str, bool]:
+        a, v = canon(t, val)
+        tt = _truthy(a)
+        if tt is None:
+            return k
+        k2 = dict(k)
+        k2[norm(tt[0])] = (v != tt[1])
+        return k2
+
+    def walk(x: ast.AST, k: T.Dict[str, bool]) -> None:
+        if isinstance(x, ast.IfExp):
+            walk(x.test, k)
+            walk(x.body, learn(x.test, True, k))
+            walk(x.orelse, learn(x.test, False, k))
+            return
+        if isinstance(x, ast.BoolOp):
+            kk = k
+            for v in x.values:
+                walk(v, kk)
+                kk = learn(v, isinstance(x.op, ast.And), kk)
+            return
+        if isinstance(x, ast.Attribute) and isinstance(x.ctx, ast.Load) and optional(x.value) and not k.get(norm(x.value)):
+            out.append((norm(x.value), x))
+        if isinstance(x, ast.Call) and isinstance(x.func, ast.Name) and x.func.id == 'int' and len(x.args) == 1 and optional(x.args[0]) \
+                and not k.get(norm(x.args[0])):
+            out.append((norm(x.args[0]), x))
+        for ch in ast.iter_child_nodes(x):
+            walk(ch, k)
+    walk(e, known)
+    return out
+
+
+def r4(ctx: RuleCtx) -> None:
+    m = model(ctx)
+    f = m.f
+    mod = f.mod
+    pt_tab, _ = build(f.parse_test, f.parse_test.body, 'parse_test')
+    all_tabs: T.List[T.Tuple[str, tables.Table]] = [(f'{PARSER}.parse_line', t) for t in m.s.all_tables] + [(f'{PARSER}.parse_test', pt_tab)]
+    # (1) int() fed by a capture group whose language is an unbounded digit run
+    seen_args: T.Dict[int, T.Dict[str, ast.AST]] = {}
+    for _, tab in all_tabs:
+        for r_ in tab.rows:
+            for call, arg in T.cast(Row, r_).ints:
+                seen_args.setdefault(id(call), {})[norm(arg)] = arg
+    n_int = n_assert = 0
+    for qn, fn in ((f'{PARSER}.parse_line', f.parse_line), (f'{PARSER}.parse_test', f.parse_test)):
+        cfg = CFG(fn)
+        for n in _body_nodes(fn):
+            if isinstance(n, ast.Assert):
+                n_assert += 1
+            if not (isinstance(n, ast.Call) and isinstance(n.func, ast.Name) and n.func.id == 'int'):
+                continue
+            n_int += 1
+            if len(n.args) != 1 or n.keywords:
+                raise Undecided(f'{qn}: `{short(n)}` is not int(<one operand>)')
+            guarded = _guarded_by_handler(cfg, n, 'ValueError')
+            args = seen_args.get(id(n))
+            if not args:
+                if guarded:
+                    ctx.ok(f'{qn}: `{short(n, 50)}` is not on a normal row of the tables and sits under a ValueError handler')
+                    continue
+                raise Undecided(f'{qn}: `{short(n)}` is on no row of the decision tables')
+            for text, arg in args.items():
+                ref = f.group_ref(arg)
+                if ref is None or f.role(ref) != 'digits':
+                    raise Undecided(f'{qn}: int() of `{short(arg, 70)}`, which is not a digits-only capture group of a line-form pattern')
+                kind, idx, rn = ref
+                lo, hi = f.forms[kind][1].bounds[idx]
+                unbounded = hi is None or hi > INT_MAX_STR_DIGITS
+                fact = f'{rn} group {idx} matches {lo}..{"unbounded" if hi is None else hi} digits'
+                ctx.require(guarded or not unbounded, f'{qn}: `{short(n, 50)}` converts the {kind}-line number ({fact}); '
+                            + ('ValueError is caught (CFG exception edge)' if guarded else 'bounded, cannot raise'), mod, qn,
+                            f'int() of the {kind}-line number ({rn} group {idx})',
+                            f'`{short(n, 60)}` converts {rn} group {idx}; {fact}, int() raises ValueError beyond {INT_MAX_STR_DIGITS} digits and no handler '
+                            f'catches it: the exception leaves parse_line / parse', n)
+    ctx.floor('int() sites', n_int, 3)
+    ctx.floor('assert sites', n_assert, 1)
+    # the assertion(s): discharged by the constant propagation of R1
+    cfg1, IN = _state_flow(f)
+    for node in cfg1.nodes:
+        if node.kind == 'stmt' and isinstance(node.ast, ast.Assert):
+            t = node.ast.test
+            ok = False
+            if isinstance(t, ast.Compare) and len(t.ops) == 1 and isinstance(t.ops[0], ast.Eq):
+                for x, y in ((t.left, t.comparators[0]), (t.comparators[0], t.left)):
+                    k = f.state_of(attr_chain(y) or '')
+                    if attr_chain(x) == 'self.state' and k:
+                        ok = IN.get(node.id, frozenset()) <= {f.states[k]}
+            ctx.require(ok, f'`{short(node.ast)}` cannot fail (constant propagation of state, see C18.R1)', mod, f'{PARSER}.parse_line', node.ast,
+                        f'`{short(node.ast)}` can fail: AssertionError leaves parse_line', node.ast)
+    # (2) group indices, (3) optional values dereferenced only under a guard, (4) constructor operands
+    opt_params = set()
+    for a, name in zip([x for x in f.parse_test.args.args if x.arg != 'self'], param_names(f.parse_test).values()):
+        if a.annotation is not None and 'Optional' in norm(a.annotation):
+            opt_params.add(name)
+    n_grp = n_deref = n_ctor = 0
+    probs: T.Dict[T.Tuple[str, str], T.Tuple[str, ast.AST]] = {}
+    for qn, tab in all_tabs:
+        in_pt = qn.endswith('parse_test')
+
+        def optional(v: ast.AST) -> bool:
+            r = f.group_ref(v)
+            if r is not None:
+                return bool(f.forms[r[0]][1].optional.get(r[1]))
+            return norm(v) == 'self.plan' or (in_pt and norm(v) in opt_params)
+        for r_ in tab.rows:
+            r = T.cast(Row, r_)
+            pos = {id(it.raw): k for k, it in reversed(list(enumerate(r.items)))}
+            for raw, sub in r.exprs:
+                upto = pos.get(id(raw), len(r.items))
+                known: T.Dict[str, bool] = {}
+                for it in r.items[:upto]:
+                    if it.atom is not None:
+                        tt = _truthy(it.atom)
+                        if tt is not None:
+                            known[norm(tt[0])] = (it.val != tt[1])
+                for x in ast.walk(sub):
+                    g = f.group_ref(x)
+                    if g is not None:
+                        n_grp += 1
+                        ng = len(f.forms[g[0]][1].roles)
+                        if not 0 <= g[1] <= ng:
+                            probs.setdefault((qn, f'group {g[1]} of {g[2]}'), (f'`{short(x, 60)}`: {g[2]} has {ng} groups, group({g[1]}) raises IndexError', raw))
+                    c = f.ctor(x)
+                    if c is not None:
+                        n_ctor += 1
+                        if c[2]:
+                            probs.setdefault((qn, f'{c[0]}(...) operands'), (f'`{short(x, 70)}`: {c[2]} (TypeError)', raw))
+                for base, x in _unguarded(sub, known, optional):
+                    what = 'an optional capture group' if f.group_ref(_e(base)) else 'an Optional value'
+                    probs.setdefault((qn, f'{short(base, 60)} used while None'), (f'`{short(x, 70)}` dereferences {what} `{short(base, 60)}` on a row where no '
+                                     f'condition shows it is set ({tab.name}): AttributeError/TypeError on None', raw))
+                n_deref += sum(1 for x in ast.walk(sub) if isinstance(x, ast.Attribute) and optional(x.value))
+    for (qn, construct), (msg, node) in probs.items():
+        ctx.violation(mod, qn, construct, msg, node)
+    if not probs:
+        ctx.ok(f'{n_grp} capture-group reads name existing groups; {n_deref} dereferences of optional groups / self.plan / Optional parameters are guarded on '
+               f'their row; {n_ctor} event constructors get exactly their fields')
+    ctx.floor('capture-group reads on rows', n_grp, 20)
+    # (5) no explicit raise is reachable; the drivers contain no partial operation of their own
+    for q in ('parse_line', 'parse_test', 'parse', 'parse_async'):
+        fn = mod.func(f'{PARSER}.{q}')
+        cfg = CFG(fn)
+        reach = cfg.reachable([cfg.entry])
+        rs = [n for n in cfg.nodes if n.kind == 'stmt' and isinstance(n.ast, ast.Raise) and n.id in reach and cfg.can_reach(n, cfg.exit_raise)]
+        for n in rs:
+            ctx.violation(mod, f'{PARSER}.{q}', n.ast, f'`{short(n.ast)}` is reachable and leaves {q}', n.ast)
+        if not rs:
+            ctx.ok(f'{PARSER}.{q}: no reachable raise statement leaves the function ({len(cfg.nodes)} CFG nodes)')
+    for q in ('parse', 'parse_async'):
+        fn = mod.func(f'{PARSER}.{q}')
+        partial = [n for n in _body_nodes(fn) if isinstance(n, (ast.Subscript, ast.Assert))
+                   or (isinstance(n, ast.Call) and call_name(n) not in ('self.parse_line',))]
+        ctx.require(not partial, f'{PARSER}.{q}: only iterates its input and calls parse_line', mod, f'{PARSER}.{q}', fn,
+                    f'{q} contains operations of its own that can raise: {[short(x, 40) for x in partial]}')
 
 
 # ----------------------------------------------------------------------------------------------
@@ -840,43 +1424,30 @@ def _int_fact(f: Facts, call: ast.AST) -> str:
 # ----------------------------------------------------------------------------------------------
 TAP_RESULTS = ['OK', 'FAIL', 'SKIP', 'UNEXPECTEDPASS', 'EXPECTEDFAIL']
 BAD_SUBTEST = {'FAIL', 'UNEXPECTEDPASS'}        # property statement: "some subtest failed or unexpectedly passed"
+_NEVER = object()
 
 
-def _tr(name: str) -> EnumVal:
-    return EnumVal('TestResult', name)
+def _enum(e: T.Union[ast.AST, str, None]) -> T.Optional[str]:
+    c = (e if isinstance(e, str) else attr_chain(e)) if e is not None else None
+    return c.split('.', 1)[1] if c and c.startswith('TestResult.') and c.count('.') == 1 else None
 
 
-class FoldDom(Hooks):
-    """Inputs of TestRunTAP.parse / complete."""
+def _bad_set(mod: Module) -> T.Set[str]:
+    """Members of the constant set in `TestResult.is_bad`: `return self in {TestResult.A, ...}`."""
+    fn = mod.func('TestResult.is_bad')
+    body = [s for s in fn.body if not (isinstance(s, ast.Expr) and isinstance(s.value, ast.Constant))]
+    if len(body) == 1 and isinstance(body[0], ast.Return) and isinstance(body[0].value, ast.Compare):
+        c = body[0].value
+        if len(c.ops) == 1 and isinstance(c.ops[0], ast.In) and norm(c.left) == 'self' and isinstance(c.comparators[0], (ast.Set, ast.Tuple, ast.List)):
+            names = [_enum(x) for x in c.comparators[0].elts]
+            if all(names):
+                return set(T.cast(T.List[str], names))
+    raise Undecided('TestResult.is_bad is not `return self in {<members>}`')
 
-    def __init__(self, w: World, tracked: T.Set[str], selfres: T.List[str], allskip: T.Callable[[ast.AST], bool]):
-        self.w = w
-        self.tracked = tracked
-        self.selfres = selfres
-        self.allskip = allskip
 
-    def field(self, name: str) -> T.Any:
-        if name == 'res':
-            return _tr(self.w.choose(('field', 'res'), self.selfres))
-        if name == 'returncode':
-            return self.w.choose(('field', 'returncode'), [0, 1])
-        return NODEFAULT
-
-    def skip_loop(self, st: ast.AST) -> bool:
-        for n in ast.walk(st):
-            if isinstance(n, (ast.Return, ast.Yield, ast.YieldFrom, ast.Await)):
-                return False
-            if isinstance(n, (ast.Name, ast.Attribute)) and isinstance(n.ctx, ast.Store) and (attr_chain(n) or '') in self.tracked:
-                return False
-        return True
-
-    def free(self, node: ast.AST, why: str) -> T.Optional[T.Any]:
-        if self.allskip(node):
-            return 'all results are SKIP'
-        reads = {n.id for n in ast.walk(node) if isinstance(n, ast.Name)} | {attr_chain(n) or '' for n in ast.walk(node) if isinstance(n, ast.Attribute)}
-        if reads & self.tracked:
-            return None
-        return norm(node)
+def _all_rows(tab: tables.Table, sem: T.Any, got: T.Any, extra: T.List[Atom], consistent: T.Any) -> T.List[T.Tuple[Row, T.Any, T.Dict[str, T.Optional[bool]]]]:
+    _, rows, _ = compare(tab, sem, lambda v: _NEVER, got, extra, consistent=consistent)
+    return [(r, g, v) for r, g, _, v in rows]
 
 
 def _is_allskip(e: ast.AST) -> bool:
@@ -890,236 +1461,229 @@ def _is_allskip(e: ast.AST) -> bool:
     c = g.elt
     if not (isinstance(c, ast.Compare) and len(c.ops) == 1 and isinstance(c.ops[0], (ast.Is, ast.Eq))):
         return False
-    sides = {attr_chain(c.left), attr_chain(c.comparators[0])}
-    return sides == {f'{v}.result', 'TestResult.SKIP'}
-
-
-def _assigned(stmts: T.List[ast.stmt]) -> T.Set[str]:
-    out: T.Set[str] = set()
-    for s in stmts:
-        for n in ast.walk(s):
-            if isinstance(n, ast.Name) and isinstance(n.ctx, ast.Store):
-                out.add(n.id)
-    return out
+    return {attr_chain(c.left), attr_chain(c.comparators[0])} == {f'{v}.result', 'TestResult.SKIP'}
 
 
 def r5(ctx: RuleCtx) -> None:
     mod = ctx.repo.module(MTEST)
-    static = Static(ctx.repo, mod)
-    fn = mod.func(f'{RUNNER}.parse')
-    qn = f'{RUNNER}.parse'
-    # which TestResult values are "bad": folded from TestResult.is_bad
-    def is_bad(name: str) -> bool:
-        it = Interp(static, World(), Hooks())
-        v = it.enum_method(_tr(name), 'is_bad', [], fn)
-        if not isinstance(v, bool):
-            raise Undecided(f'TestResult.is_bad() does not fold for {name}: {v!r}')
-        return v
+    f = facts(ctx)
+    bad_set = _bad_set(mod)
     for name in TAP_RESULTS + ['ERROR', 'RUNNING', 'TIMEOUT', 'INTERRUPT']:
         want = name in BAD_SUBTEST or name in ('ERROR', 'TIMEOUT', 'INTERRUPT')
-        ctx.require(is_bad(name) == want, f'TestResult.{name}.is_bad() is {want}', mod, 'TestResult.is_bad', f'TestResult.{name}',
-                    f'TestResult.{name}.is_bad() is {is_bad(name)}; the property counts it as {"bad" if want else "not bad"}')
-    # shape: locals; one loop over TAPParser().parse_async(lines); tail
+        ctx.require((name in bad_set) == want, f'TestResult.{name} is {"" if want else "not "}in the is_bad set', mod, 'TestResult.is_bad', f'TestResult.{name}',
+                    f'TestResult.{name} is {"" if name in bad_set else "not "}in the is_bad set; the property counts it as {"bad" if want else "not bad"}')
+    fn = mod.func(f'{RUNNER}.parse')
+    qn = f'{RUNNER}.parse'
     loops = [s for s in fn.body if isinstance(s, (ast.For, ast.AsyncFor))]
     if len(loops) != 1 or not isinstance(loops[0].target, ast.Name):
         raise Undecided(f'{qn}: expected one loop over the parser events')
     loop = loops[0]
-    ps = params_of(fn)
+    ps = _params(fn)
     it_ok = (isinstance(loop.iter, ast.Call) and isinstance(loop.iter.func, ast.Attribute) and loop.iter.func.attr in ('parse_async', 'parse')
              and isinstance(loop.iter.func.value, ast.Call) and norm(loop.iter.func.value) == f'{PARSER}()'
              and len(loop.iter.args) == 1 and isinstance(loop.iter.args[0], ast.Name) and loop.iter.args[0].id in ps)
     ctx.require(it_ok, f'{qn}: the events are those of a fresh {PARSER}() over the test output', mod, qn, loop.iter,
                 f'the loop iterates `{short(loop.iter)}`, not {PARSER}().parse_async(<lines>)')
     idx = fn.body.index(loop)
-    pre, tail = fn.body[:idx], fn.body[idx + 1:]
-    ev_name = loop.target.id
-    # the verdict accumulator: the local that is finally stored into self.res
+    tail = fn.body[idx + 1:]
+    ev = loop.target.id
     acc = None
     for s in ast.walk(fn):
         if isinstance(s, ast.Assign) and any(attr_chain(t) == 'self.res' for t in s.targets) and isinstance(s.value, ast.Name):
             acc = s.value.id
     if acc is None:
         raise Undecided(f'{qn}: no local verdict is stored into self.res')
-    tracked = {acc, 'self.res', 'self.returncode'}
-    havoc = _assigned(loop.body) - {acc}
-    plan_cls, test_cls = f'{PARSER}.Plan', f'{PARSER}.Test'
-    events: T.Dict[str, T.Callable[[], T.Any]] = {
-        'Version': lambda: Obj(f'{PARSER}.Version', {'version': 13}),
-        'Plan': lambda: Obj(plan_cls, {'num_tests': 2, 'late': False, 'skipped': False, 'explanation': None}),
-        'Bailout': lambda: Obj(f'{PARSER}.Bailout', {'message': 'msg'}),
-        'UnknownLine': lambda: Obj(f'{PARSER}.UnknownLine', {'message': 'x', 'lineno': 3}),
-        'Error': lambda: Obj(f'{PARSER}.Error', {'message': 'msg'}),
-    }
-    for r in TAP_RESULTS:
-        events[f'Test {r}'] = (lambda r=r: Obj(test_cls, {'number': 1, 'name': 'n', 'result': _tr(r), 'explanation': None}))
-    ACC = [None, 'FAIL', 'ERROR']
+    # the finite domain of the verdict local: the constants assigned to it anywhere in the function
+    domain: T.List[T.Optional[str]] = []
+    for s in ast.walk(fn):
+        if isinstance(s, ast.Assign) and any(isinstance(t, ast.Name) and t.id == acc for t in s.targets):
+            v = None if (isinstance(s.value, ast.Constant) and s.value.value is None) else _enum(s.value)
+            if v is None and not (isinstance(s.value, ast.Constant) and s.value.value is None):
+                raise Undecided(f'{qn}: `{short(s)}` assigns something else than None / a TestResult member to the verdict')
+            if v not in domain:
+                domain.append(v)
+    members = [v for v in domain if v is not None]
 
-    def accval(x: T.Optional[str]) -> T.Any:
-        return None if x is None else _tr(x)
+    def verdict_of(view: T.Dict[str, T.Optional[bool]]) -> T.Any:
+        c = [v for v in domain if view.get('verdict set') in (None, v is not None)
+             and all(view.get(f'verdict=={x}') in (None, v == x) for x in members)]
+        return c[0] if len(c) == 1 else _NEVER
 
-    class Step(T.NamedTuple):
-        ev: str
-        acc0: T.Optional[str]
-        acc1: T.Any
-        appended: bool
-        res: Result
+    def vsem(a: Atom) -> T.Optional[T.Tuple[str, bool]]:
+        if a.kind == 'truth' and a.args[0] == acc:
+            return 'verdict set', False
+        if a.kind == 'is' and a.args[0] == acc and a.args[1] == 'None':
+            return 'verdict set', True
+        if a.kind in ('cmp', 'is') and acc in a.args and (a.kind == 'is' or a.args[0] == 'eq'):
+            other = [x for x in a.args[-2:] if x != acc]
+            if len(other) == 1 and _enum(other[0]):
+                return f'verdict=={_enum(other[0])}', False
+        if a.kind == 'truth' and _enum(a.args[0]):
+            return 'a TestResult member is truthy', False
+        return None
+    vextra = [canon(_e(acc), True)[0]] + [canon(_e(f'{acc} == TestResult.{x}'), True)[0] for x in members]
 
-    def pre_env(w: World, d: Hooks) -> T.Dict[str, T.Any]:
-        it = Interp(static, w, d)
-        r = it.run(pre, RUNNER, {p: Unknown('parameter') for p in ps})
-        if r.raised is not None or r.outcome != 'fall':
-            raise Undecided(f'{qn}: statements before the loop do not fall through')
-        return r.locals
+    # ---- tail: what becomes of self.res
+    ttab, _ = build(fn, tail, f'{RUNNER}.parse[after the loop]')
 
-    def run_step(w: World) -> Step:
-        d = FoldDom(w, tracked, ['RUNNING'], _is_allskip)
-        env = pre_env(w, d)
-        kind = w.choose(('event',), list(events))
-        a0 = w.choose(('acc',), ACC)
-        for h in havoc:
-            env[h] = Unknown('set by an earlier event')
-        ev = events[kind]()
-        env[acc] = accval(a0)
-        env[ev_name] = ev
-        it = Interp(static, w, d)
-        r = it.run(loop.body, RUNNER, env)
-        if r.raised is not None:
-            raise Undecided(f'{qn}: loop body would raise {r.raised} for a {kind} event')
-        if r.outcome not in ('fall', 'continue'):
-            raise Undecided(f'{qn}: loop body leaves by {r.outcome}')
-        appended = any(c == 'self.results.append' and len(a) == 1 and a[0] is ev for c, a in r.calls)
-        return Step(kind, a0, r.locals.get(acc), appended, r)
+    def tsem(a: Atom) -> T.Optional[T.Tuple[str, bool]]:
+        s = vsem(a)
+        if s:
+            return s
+        if a.kind == 'truth' and _is_allskip(_e(a.args[0])):
+            return 'all results SKIP', False
+        if a.kind in ('cmp', 'is') and 'self.res' in a.args and 'TestResult.RUNNING' in a.args and (a.kind == 'is' or a.args[0] == 'eq'):
+            return 'still running', False
+        reads = {n.id for n in ast.walk(_e(a.args[0] if a.kind in ('truth', 'is') else a.args[1])) if isinstance(n, ast.Name)}
+        if acc not in reads and not any('self.res' in str(x) or 'returncode' in str(x) for x in a.args):
+            return f'free:{a!r}', False       # warnings / version bookkeeping: reads nothing the verdict depends on
+        return None
 
-    steps = explore(run_step)
-    # tail: which accumulator values survive "all results are SKIP"
-    class Tail(T.NamedTuple):
-        acc0: T.Optional[str]
-        allskip: T.Optional[bool]
-        self0: str
-        final: T.Any
-        res: Result
+    def tgot(r: Row, v: T.Dict[str, T.Optional[bool]]) -> T.Any:
+        fin = r.final.get('self.res')
+        if fin is None:
+            return 'unchanged'
+        if norm(fin) == acc:
+            vd = verdict_of(v)
+            return 'None' if vd is None else vd
+        return _enum(fin) or ('?' + short(fin, 40))
+    textra = vextra + [canon(_e('self.res == TestResult.RUNNING'), True)[0]]
+    trows = _all_rows(ttab, tsem, tgot, textra,
+                      lambda v: verdict_of(v) is not _NEVER and v.get('a TestResult member is truthy') in (None, True) and v.get('all results SKIP') is not None)
+    ctx.floor('worlds after the loop', len(trows), 12)
+    protected = set()
+    for x in members:
+        outs = {g for _, g, v in trows if verdict_of(v) == x and v.get('all results SKIP') and v.get('still running')}
+        if x in bad_set and outs and all(o in bad_set for o in outs):
+            protected.add(x)
+    tmsgs: T.Dict[str, ast.AST] = {}
+    for r, g, v in trows:
+        vd, allskip, running = verdict_of(v), bool(v.get('all results SKIP')), bool(v.get('still running'))
+        node = r.items[-1].raw if r.items else fn
+        if isinstance(g, str) and g.startswith('?'):
+            raise Undecided(f'{qn}: self.res receives `{g[1:]}`')
+        if not running:
+            if g != 'unchanged':
+                tmsgs.setdefault(f'a harness verdict (self.res is not RUNNING) is overwritten with {g}', node)
+        elif vd is None:
+            want = 'SKIP' if allskip else 'unchanged'
+            if g != want and not (g == 'None' and want == 'unchanged'):
+                tmsgs.setdefault(f'no bad event, all-SKIP={allskip}: self.res receives {g}, the reference row has {want}', node)
+        elif vd in bad_set:
+            if allskip and vd not in protected:
+                continue    # infeasible: an unprotected bad verdict comes with a non-SKIP result in self.results (event rows below)
+            if g not in bad_set:
+                tmsgs.setdefault(f'verdict {vd} (all-SKIP={allskip}) ends as self.res {g}: a bad run is not reported bad', node)
+    for msg, node in tmsgs.items():
+        ctx.violation(mod, qn, 'verdict after the event loop: ' + msg.split(':')[0][:60], msg, node)
+    if not tmsgs:
+        ctx.ok(f'{ttab.name}: bad verdict kept, all-SKIP -> SKIP unless the verdict is in {sorted(protected)}, harness verdicts untouched '
+               f'({len(trows)} worlds, {len(ttab.rows)} rows; verdict domain {domain})')
+    # ---- loop body: one table per event
+    ltab, _ = build(fn, loop.body, f'{RUNNER}.parse[per event]')
+    kinds = sorted(f.tuples)
 
-    def run_tail(w: World) -> Tail:
-        d = FoldDom(w, tracked, ['RUNNING', 'TIMEOUT'], _is_allskip)
-        env = pre_env(w, d)
-        for h in havoc:
-            env[h] = Unknown('set by the events')
-        a0 = w.choose(('acc',), ACC)
-        env[acc] = accval(a0)
-        it = Interp(static, w, d)
-        r = it.run(tail, RUNNER, env)
-        if r.raised is not None:
-            raise Undecided(f'{qn}: statements after the loop would raise {r.raised}')
-        final = r.heap['self.res'] if 'self.res' in r.heap else d.field('res')
-        return Tail(a0, w.vals.get(('free', 'all results are SKIP')), w.vals[('field', 'res')] if ('field', 'res') in w.vals else 'RUNNING', final, r)
+    def lsem(a: Atom) -> T.Optional[T.Tuple[str, bool]]:
+        if a.kind == 'isinstance' and a.args[0] == ev and len(a.args[1]) == 1 and a.args[1][0].split('.')[-1] in f.tuples:
+            return 'is ' + a.args[1][0].split('.')[-1], False
+        if a.kind == 'truth' and a.args[0] == f'{ev}.result.is_bad()':
+            return 'bad result', False
+        if a.kind in ('is', 'cmp') and f'{ev}.result' in a.args and (a.kind == 'is' or a.args[0] == 'eq'):
+            other = [x for x in a.args[-2:] if x != f'{ev}.result']
+            if len(other) == 1 and _enum(other[0]):
+                return f'result is {_enum(other[0])}', False
+        return vsem(a)
 
-    def run_tail_full(w: World) -> Tail:
-        w.choose(('field', 'res'), ['RUNNING', 'TIMEOUT'])
-        w.choose(('free', 'all results are SKIP'), [False, True])
-        return run_tail(w)
-    tails = [t for _, t in explore(run_tail_full)]
-
-    def bad(v: T.Any) -> bool:
-        return isinstance(v, EnumVal) and is_bad(v.name)
-    protected = {a for a in ('FAIL', 'ERROR') if all(bad(t.final) for t in tails if t.acc0 == a and t.self0 == 'RUNNING')}
-    ctx.note(f'{qn}: verdict accumulator `{acc}`; values that survive the all-SKIP override: {sorted(protected)}')
-    # step obligations
-    ctx.floor('event kinds x accumulator worlds', len(steps), 30)
-    by_ev: T.Dict[str, T.List[Step]] = {}
-    for _, s in steps:
-        by_ev.setdefault(s.ev, []).append(s)
-    for kind, lst in by_ev.items():
-        is_test = kind.startswith('Test ')
-        bad_event = kind in ('Bailout', 'Error') or (is_test and kind.split()[1] in BAD_SUBTEST)
-        msgs: T.List[str] = []
-        for s in lst:
-            a1 = s.acc1
-            if isinstance(a1, Unknown):
-                raise Undecided(f'{qn}: verdict after a {kind} event does not fold: {a1!r}')
-            if bad_event:
-                if not bad(a1):
-                    msgs.append(f'after a {kind} event the verdict `{acc}` is {a1!r} (was {s.acc0}): the run is not marked bad')
-                elif a1.name not in protected and not (is_test and s.appended and kind.split()[1] != 'SKIP'):
-                    msgs.append(f'after a {kind} event `{acc}` is {a1!r}, which the all-results-SKIP override replaces by SKIP')
-            else:
-                if not (a1 == accval(s.acc0)):
-                    msgs.append(f'a {kind} event changes the verdict `{acc}` from {s.acc0} to {a1!r}')
-            if is_test and not s.appended:
-                msgs.append(f'a {kind} event is not appended to self.results')
-        if msgs:
-            ctx.violation(mod, qn, f'{kind} event', '; '.join(dict.fromkeys(msgs)), lst[0].res.last)
-        else:
-            ctx.ok(f'{qn}: {kind} event: {"marks the run bad (kept by the tail)" if bad_event else "leaves the verdict unchanged"} in {len(lst)} worlds')
-    # tail obligations
-    ctx.floor('tail worlds', len(tails), 12)
-    tmsgs: T.List[str] = []
-    for t in tails:
-        if isinstance(t.final, Unknown):
-            raise Undecided(f'{qn}: final self.res does not fold: {t.final!r}')
-        if t.acc0 is not None and t.acc0 not in protected and t.allskip:
-            continue   # infeasible: an unprotected bad verdict comes with a non-SKIP result in self.results (step obligation)
-        if t.self0 != 'RUNNING':
-            if t.final != _tr(t.self0):
-                tmsgs.append(f'a harness verdict {t.self0} is overwritten by {t.final!r}')
-            continue
-        if t.acc0 is not None:
-            if not bad(t.final):
-                tmsgs.append(f'verdict {t.acc0} (all-SKIP={t.allskip}) ends as self.res={t.final!r}: a bad run is not reported bad')
-        else:
-            want = _tr('SKIP') if t.allskip else _tr('RUNNING')
-            if t.final != want:
-                tmsgs.append(f'no bad event, all-SKIP={t.allskip}: self.res becomes {t.final!r}, expected {want!r}')
-    if tmsgs:
-        ctx.violation(mod, qn, 'verdict after the event loop', '; '.join(dict.fromkeys(tmsgs)), tail[-1] if tail else fn)
-    else:
-        ctx.ok(f'{qn}: after the loop: bad verdict kept, all-SKIP -> SKIP unless an Error/Bailout occurred, harness verdicts untouched ({len(tails)} worlds)')
-    _cover(static, loop.body + tail, qn)
-    # complete(): non-zero exit status
+    def lgot(r: Row, v: T.Dict[str, T.Optional[bool]]) -> T.Any:
+        sets = [e for e in r.effs('set') if e.target == acc]
+        appended = any(e.kind == 'call' and norm(e.value) == f'self.results.append({ev})' for e in r.effs())
+        if not sets:
+            return ('unchanged', appended)
+        val = sets[-1].value
+        if isinstance(val, ast.Constant) and val.value is None:
+            return ('None', appended)
+        return (_enum(val) or '?' + short(val, 40), appended)
+    lextra = [canon(_e(f'isinstance({ev}, {PARSER}.{k})'), True)[0] for k in kinds] + [canon(_e(f'{ev}.result.is_bad()'), True)[0]]
+    def lconsistent(v: T.Dict[str, T.Optional[bool]]) -> bool:
+        if sum(1 for k in kinds if v.get('is ' + k)) > 1:
+            return False
+        res_true = [k[len('result is '):] for k, x in v.items() if k.startswith('result is ') and x]
+        if len(res_true) > 1:
+            return False
+        return not res_true or v.get('bad result') in (None, res_true[0] in bad_set)    # the is_bad set is a declared finite table
+    lrows = _all_rows(ltab, lsem, lgot, lextra, lconsistent)
+    ctx.floor('event-kind worlds', len(lrows), 8)
+    by_kind: T.Dict[str, T.List[T.Tuple[Row, T.Any, T.Dict[str, T.Optional[bool]]]]] = {}
+    for r, g, v in lrows:
+        k = next((k for k in kinds if v.get('is ' + k)), 'other')
+        if k == 'Test':
+            k = 'Test with a bad result' if v.get('bad result') else 'Test with a good result'
+        by_kind.setdefault(k, []).append((r, g, v))
+    for k, lst in by_kind.items():
+        msgs: T.Dict[str, ast.AST] = {}
+        for r, (val, appended), v in lst:
+            node = r.items[-1].raw if r.items else loop
+            if isinstance(val, str) and val.startswith('?'):
+                raise Undecided(f'{qn}: the verdict receives `{val[1:]}`')
+            if k in ('Bailout', 'Error'):
+                if val not in bad_set:
+                    msgs.setdefault(f'after a {k} event the verdict `{acc}` is {val}: the run is not marked bad', node)
+                elif val not in protected:
+                    msgs.setdefault(f'after a {k} event `{acc}` is {val}, which the all-results-SKIP override replaces by SKIP', node)
+            elif k == 'Test with a bad result':
+                if val not in bad_set:
+                    msgs.setdefault(f'a subtest with a bad result leaves the verdict `{acc}` {val}', node)
+            elif val != 'unchanged':
+                msgs.setdefault(f'a {k} event changes the verdict `{acc}` to {val}', node)
+            if k.startswith('Test') and not appended:
+                msgs.setdefault(f'a {k} is not appended to self.results (the all-SKIP test and the subtest list miss it)', node)
+        for msg, node in msgs.items():
+            ctx.violation(mod, qn, f'{k} event', msg, node)
+        if not msgs:
+            ctx.ok(f'{ltab.name}: {k}: ' + ('marks the run bad with a verdict the tail keeps' if k in ('Bailout', 'Error') else
+                                           'marks the run bad and is recorded' if k == 'Test with a bad result' else 'leaves the verdict unchanged')
+                   + f' ({len(lst)} worlds)')
+    ctx.require('SKIP' not in bad_set, 'a subtest with a bad result is not a SKIP (an unprotected bad verdict implies a non-SKIP entry in self.results)',
+                mod, 'TestResult.is_bad', 'TestResult.SKIP', 'SKIP counts as bad')
+    # ---- complete(): non-zero exit status
     cfn = mod.func(f'{RUNNER}.complete')
     cq = f'{RUNNER}.complete'
     supers = [s for s in cfn.body if isinstance(s, ast.Expr) and isinstance(s.value, ast.Call) and norm(s.value.func) == 'super().complete']
     ctx.require(len(supers) == 1 and cfn.body[-1] is supers[0], f'{cq}: ends with super().complete()', mod, cq, cfn, 'complete() does not end with exactly one super().complete()')
+    ctab, _ = build(cfn, cfn.body, cq)
 
-    def run_complete(w: World) -> T.Tuple[str, int, T.Any]:
-        d = FoldDom(w, tracked, ['RUNNING', 'SKIP', 'OK', 'FAIL', 'ERROR', 'TIMEOUT'], _is_allskip)
-        it = Interp(static, w, d)
-        r = it.run(cfn.body, RUNNER, {})
-        if r.raised is not None:
-            raise Undecided(f'{cq} would raise {r.raised}')
-        r0, rc = w.choose(('field', 'res'), d.selfres), w.choose(('field', 'returncode'), [0, 1])
-        return r0, rc, (r.heap['self.res'] if 'self.res' in r.heap else _tr(r0))
-    cm: T.List[str] = []
-    cruns = explore(run_complete)
-    for _, (r0, rc, final) in cruns:
-        if isinstance(final, Unknown):
-            raise Undecided(f'{cq}: self.res does not fold: {final!r}')
-        if is_bad(r0) or rc == 0:
-            if final != _tr(r0):
-                cm.append(f'self.res={r0}, exit status {rc}: verdict changed to {final!r}')
-        elif not bad(final):
-            cm.append(f'self.res={r0}, exit status {rc}: verdict stays {final!r}; a non-zero exit must be reported bad')
-    ctx.floor('complete() worlds', len(cruns), 12)
-    if cm:
-        ctx.violation(mod, cq, 'exit status fold', '; '.join(dict.fromkeys(cm)), cfn)
-    else:
-        ctx.ok(f'{cq}: non-zero exit status turns a not-bad verdict bad, everything else is kept ({len(cruns)} worlds)')
-    _cover(static, cfn.body, cq)
+    def csem(a: Atom) -> T.Optional[T.Tuple[str, bool]]:
+        if a.kind == 'cmp' and a.args[0] == 'eq' and a.args[1] == 'self.returncode' and a.args[2] == '0':
+            return 'exit status 0', False
+        th = _thresh(a, lambda x: x == 'self.returncode')
+        if th:
+            return f'exit status>={th[0]}', th[1]
+        if a.kind == 'truth' and a.args[0] == 'self.res.is_bad()':
+            return 'already bad', False
+        return None
 
-
-def _cover(static: Static, body: T.List[ast.stmt], name: str) -> None:
-    miss: T.Dict[str, None] = {}
-    for p in enumerate_paths(body, unroll=1):
-        for e in p.events:
-            if e.kind == 'cond' and e.node is not None and (id(e.node), bool(e.val)) not in static.cov:
-                miss.setdefault(f'`{short(e.node, 60)}` {"true" if e.val else "false"}')
-    if miss:
-        raise Undecided(f'{name}: branches outside the abstraction (no world exercises them): ' + '; '.join(list(miss)[:6]))
+    def cgot(r: Row, v: T.Dict[str, T.Optional[bool]]) -> T.Any:
+        fin = r.final.get('self.res')
+        return 'unchanged' if fin is None else (_enum(fin) or '?' + short(fin, 40))
+    crows = _all_rows(ctab, csem, cgot, [canon(_e('self.returncode == 0'), True)[0], canon(_e('self.res.is_bad()'), True)[0]], lambda v: True)
+    cm: T.Dict[str, ast.AST] = {}
+    for r, g, v in crows:
+        if v.get('exit status 0') or v.get('already bad'):
+            if g != 'unchanged':
+                cm.setdefault(f'exit status {"0" if v.get("exit status 0") else "non-zero"}, verdict {"bad" if v.get("already bad") else "not bad"}: self.res is changed to {g}', cfn)
+        elif g not in bad_set:
+            cm.setdefault(f'non-zero exit status with a verdict that is not bad: self.res stays {g}; a non-zero exit must be reported bad', cfn)
+    ctx.floor('complete() worlds', len(crows), 4)
+    for msg, node in cm.items():
+        ctx.violation(mod, cq, 'exit status fold', msg, node)
+    if not cm:
+        ctx.ok(f'{cq}: non-zero exit status turns a not-bad verdict bad, everything else is kept ({len(crows)} worlds, {len(ctab.rows)} rows)')
 
 
 RULES = [
-    Rule('C18.R1', 'state machine: transitions, YAML entry, state assertion, single writer', r1),
-    Rule('C18.R2', 'event tables: line forms, parse_test rows, plan/EOF/version, drivers', r2),
-    Rule('C18.R3', 'counters: num_tests, last_test, highest_test, beyond-plan comparison', r3),
-    Rule('C18.R4', 'the parser never raises: partial-operation inventory', r4),
-    Rule('C18.R5', 'verdict fold of TestRunTAP.parse / complete', r5),
+    Rule('C18.R1', 'state machine: constant propagation of state, prefix table, AFTER_TEST after a test line', r1),
+    Rule('C18.R2', 'event tables: line forms, parse_test rows, plan/EOF/version rows, drivers', r2),
+    Rule('C18.R3', 'counters: symbolic row effects and the beyond-plan comparison', r3),
+    Rule('C18.R4', 'the parser never raises: unbounded int(), group indices, guarded optionals, raise', r4),
+    Rule('C18.R5', 'verdict fold of TestRunTAP.parse / complete as decision tables', r5),
 ]
